@@ -1,15 +1,48 @@
-"""C09 - The XorEncoded file view is a faithful read-only file (structural part)."""
+"""C09 - The XorEncoded file view is a faithful read-only file (structural part).
+
+All rules are phrased on roles and values, not on spelling:
+
+* arithmetic is compared as polynomials (`_poly`) after following single-definition locals, `@property` accessors and
+  one-expression accessor methods of the class, module/class constants, `cast(..)`, `len(<constant>)`,
+  `struct.Struct(fmt).size`;
+* guards are the dominating branch edges of the CFG (early return / continue / nested if / conditional expression are the
+  same thing), flags and "value or None" temporaries are narrowed to the definition compatible with the test (`_narrow`);
+* seek() is executed symbolically per whence value (`_exec_seek`), the constructor / read_nonce / the scan loop are
+  simulated as straight-line cursor movements (`_simulate`, byte spans instead of "the first read"/"the second read");
+* the underlying file is "whatever expression has `self.fh` as its origin"; the read accounting of read() is done on
+  *trackers* (bytes accumulator, list of words that is joined, in-memory stream, byte counter counting up or down)
+  and on the CFG specialised to "n > 0 and more than n bytes consumed", not on the literal `data += ...`;
+* helpers of the module that the normaliser could not inline are followed where the rule needs them (R4);
+* a verdict is `violated` only when the construct was located and is expressed in the vocabulary of the rule; a
+  polynomial with foreign atoms, a shape the rule does not understand, or a missing anchor construct gives `undecided`.
+"""
 
 from __future__ import annotations
 
 import ast
+import struct as _struct
+from typing import Dict, List, Optional, Tuple
 
 from csverif.absint import SymPoly, sympoly
-from csverif.astutil import pmatch, find_match, assignments_to, body_walk, compare_parts, const_eval, dotted, fn_calls, is_const, kwarg, NotConst, params, src, statements, strip_cast
+from csverif.astutil import (
+    assignments_to, bind_args, body_walk, compare_parts, const_eval, dotted, fn_calls, module_env, NotConst, param_defaults,
+    params, src, statements, strip_cast,
+)
 from csverif.cfg import ENTRY, EXIT
-from csverif.q import FuncView, dominating_conditions, guarded_by, origin, raise_class, specialise
+from csverif.q import FuncView, dominating_conditions, origin, raise_class, reaching_defs, specialise, tv_eval
+
+RAW = "self.fh"
+CLS = "xordecode.XorEncodedFile"
+_WHENCE = {"SEEK_SET": 0, "SEEK_CUR": 1, "SEEK_END": 2}
+
+H = SymPoly.atom("self.nonce_offset") + SymPoly.const(8)
+POS = SymPoly.atom("<raw position>")
+CONSUMED = SymPoly.atom("<bytes consumed>")
 
 
+# ============================================================================================== general helpers
+# (candidates for csverif.q / csverif.absint: _const, _poly, _verdict, _root, _narrow, _optionals, _cond_nodes, _linear_facts,
+#  _equalities, _simulate, _span_of, _exec_seek)
 def _c(node):
     try:
         return const_eval(node) if node is not None else None
@@ -17,19 +50,393 @@ def _c(node):
         return None
 
 
-H = SymPoly.atom("self.nonce_offset") + SymPoly.const(8)
+def _is_int(v) -> bool:
+    return isinstance(v, int) and not isinstance(v, bool)
 
 
-def _expand(fn, e, depth=0):
-    def subst(x):
-        if depth > 6:
-            return None
-        if isinstance(x, ast.Name) and x.id not in params(fn):
-            defs = [v for st, v in assignments_to(fn, x.id)]
-            if len(defs) == 1 and defs[0] is not None:
-                return _expand(fn, defs[0], depth + 1)
+def _class_attr(ctx, f, name: str) -> Optional[ast.AST]:
+    if f is None or not f.cls:
         return None
+    try:
+        return ctx.repo.class_attrs(f"{f.module.name}.{f.cls}").get(name)
+    except Exception:
+        return None
+
+
+def _const(ctx, f, e, depth: int = 0):
+    """Constant value of an expression: literals, arithmetic, `len(..)`, module constants, class constants reached
+    through self/cls/<Class>, io/os.SEEK_*, single-definition locals.  None when not a constant."""
+    if e is None or depth > 8:
+        return None
+    e = strip_cast(e)
+    try:
+        return const_eval(e)
+    except (NotConst, TypeError, ValueError, KeyError):
+        pass
+    if isinstance(e, ast.Name):
+        if f is not None:
+            if e.id in params(f.node):
+                return None
+            defs = assignments_to(f.node, e.id)
+            if len(defs) == 1 and defs[0][1] is not None and isinstance(defs[0][0], (ast.Assign, ast.AnnAssign)):
+                return _const(ctx, f, defs[0][1], depth + 1)
+            if defs:
+                return None
+            mc = f.module.consts.get(e.id)
+            if mc is not None:
+                try:
+                    return const_eval(mc, module_env(f.module))
+                except (NotConst, TypeError, ValueError, KeyError):
+                    return None
+        return None
+    if isinstance(e, ast.Call) and dotted(e.func) == "struct.calcsize" and len(e.args) == 1:
+        fmt = _const(ctx, f, e.args[0], depth + 1)
+        try:
+            return _struct.calcsize(fmt) if isinstance(fmt, (str, bytes)) else None
+        except _struct.error:
+            return None
+    if isinstance(e, ast.Attribute) and e.attr == "size":
+        # struct.Struct("<II").size (directly, or through a local / module / class constant)
+        base = strip_cast(e.value)
+        if isinstance(base, ast.Name) and f is not None and base.id not in params(f.node):
+            defs = assignments_to(f.node, base.id)
+            base = defs[0][1] if len(defs) == 1 and defs[0][1] is not None else (f.module.consts.get(base.id) if not defs else None)
+        elif isinstance(base, ast.Attribute) and isinstance(base.value, ast.Name) and f is not None and f.cls and base.value.id in ("self", "cls", f.cls.split(".")[-1]):
+            base = _class_attr(ctx, f, base.attr)
+        if isinstance(base, ast.Call) and dotted(base.func) in ("struct.Struct", "Struct") and len(base.args) == 1:
+            fmt = _const(ctx, f, base.args[0], depth + 1)
+            try:
+                return _struct.calcsize(fmt) if isinstance(fmt, (str, bytes)) else None
+            except _struct.error:
+                return None
+    if isinstance(e, ast.Attribute):
+        d = dotted(e)
+        if d is not None and d.split(".")[-1] in _WHENCE and d.split(".")[0] in ("io", "os"):
+            return _WHENCE[d.split(".")[-1]]
+        if isinstance(e.value, ast.Name) and f is not None and f.cls and e.value.id in ("self", "cls", f.cls.split(".")[-1]):
+            ca = _class_attr(ctx, f, e.attr)
+            if ca is not None:
+                return _const(ctx, None, ca, depth + 1)
+        return None
+    if isinstance(e, ast.UnaryOp) and isinstance(e.op, ast.USub):
+        v = _const(ctx, f, e.operand, depth + 1)
+        return -v if _is_int(v) else None
+    if isinstance(e, ast.BinOp):
+        a, b = _const(ctx, f, e.left, depth + 1), _const(ctx, f, e.right, depth + 1)
+        if a is None or b is None:
+            return None
+        try:
+            return const_eval(ast.BinOp(left=ast.Constant(value=a), op=e.op, right=ast.Constant(value=b)))
+        except (NotConst, TypeError, ValueError):
+            return None
+    if isinstance(e, ast.Call) and dotted(e.func) == "len" and len(e.args) == 1 and not e.keywords:
+        v = _const(ctx, f, e.args[0], depth + 1)
+        return len(v) if isinstance(v, (bytes, str, tuple, list)) else None
+    return None
+
+
+def _poly(ctx, f, e, special=None, stop=frozenset(), depth: int = 0) -> Optional[SymPoly]:
+    """Polynomial normal form of an arithmetic expression evaluated in function f.  Single-definition locals are followed
+    (not those in `stop`), `self.<property>` is replaced by the property's return expression, constants are folded;
+    `special(node)` may map a node to a polynomial first (roles such as "the raw position")."""
+    if e is None or depth > 8:
+        return None
+    fn = f.node
+
+    def subst(x):
+        if special is not None:
+            s = special(x)
+            if s is not None:
+                return s
+        y = strip_cast(x)
+        if y is not x:
+            return _poly(ctx, f, y, special, stop, depth + 1)
+        if isinstance(x, ast.Name):
+            if x.id in stop or x.id in params(fn):
+                return None
+            defs = assignments_to(fn, x.id)
+            if len(defs) == 1 and defs[0][1] is not None and isinstance(defs[0][0], (ast.Assign, ast.AnnAssign)):
+                v = defs[0][1]
+                if not any(isinstance(n, ast.Name) and n.id == x.id for n in ast.walk(v)):
+                    return _poly(ctx, f, v, special, stop, depth + 1)
+                return None
+            if not defs:
+                c = _const(ctx, f, x)
+                if _is_int(c):
+                    return SymPoly.const(c)
+            return None
+        if isinstance(x, ast.Attribute) and not isinstance(x.value, ast.Name):
+            c = _const(ctx, f, x)
+            return SymPoly.const(c) if _is_int(c) else None
+        if isinstance(x, ast.Attribute) and isinstance(x.value, ast.Name):
+            if x.value.id == "self" and f.cls:
+                prop = ctx.rs.property_of(f"{f.module.name}.{f.cls}", x.attr)
+                if prop is not None:
+                    body = prop.node.body
+                    if len(body) == 1 and isinstance(body[0], ast.Return) and body[0].value is not None:
+                        return _poly(ctx, prop, body[0].value, special, frozenset(), depth + 1)
+                    return None
+            c = _const(ctx, f, x)
+            if _is_int(c):
+                return SymPoly.const(c)
+            return None
+        if isinstance(x, ast.Call):
+            c = _const(ctx, f, x)
+            if _is_int(c):
+                return SymPoly.const(c)
+            # self.m() of a one-expression accessor method of the same class
+            if not x.args and not x.keywords and isinstance(x.func, ast.Attribute) and isinstance(x.func.value, ast.Name) and x.func.value.id == "self" and f.cls:
+                cal = ctx.rs.resolve_call(f, x)
+                if cal.kind == "func" and cal.func is not None and cal.func.cls == f.cls and len(params(cal.func.node)) == 1:
+                    body = cal.func.node.body
+                    if len(body) == 1 and isinstance(body[0], ast.Return) and body[0].value is not None:
+                        return _poly(ctx, cal.func, body[0].value, special, frozenset(), depth + 1)
+        return None
+
     return sympoly(e, subst)
+
+
+def _verdict(p: Optional[SymPoly], want: SymPoly, vocab=()) -> str:
+    """'ok' | 'bad' | 'unknown': a polynomial that differs from the required one is *wrong* only if it is written in the
+    vocabulary of the rule; with foreign atoms (an attribute or call the rule cannot see through) nothing is claimed."""
+    if p is None:
+        return "unknown"
+    if p == want:
+        return "ok"
+    return "bad" if p.atoms() <= (want.atoms() | set(vocab)) else "unknown"
+
+
+def _worst(vs) -> str:
+    vs = list(vs)
+    if any(v == "bad" for v in vs):
+        return "bad"
+    if any(v == "unknown" for v in vs):
+        return "unknown"
+    return "ok"
+
+
+def _emit(ctx, rule, kind, where, text, verdict, ok_detail, bad_detail, node=None, unknown_detail=None):
+    if verdict is True or verdict is False:
+        verdict = "ok" if verdict else "bad"
+    if verdict == "unknown":
+        return ctx.undecided(rule, kind, where, text, unknown_detail or bad_detail, node)
+    return ctx.ob(rule, kind, where, text, verdict == "ok", ok_detail if verdict == "ok" else bad_detail, node)
+
+
+def _root(fn, e, depth: int = 0) -> Optional[str]:
+    """Dotted name an expression is a plain copy of: casts stripped, `a = b` copies of single-definition locals followed."""
+    e = strip_cast(e)
+    if isinstance(e, ast.Name) and depth < 6 and e.id not in params(fn):
+        defs = assignments_to(fn, e.id)
+        if len(defs) == 1 and defs[0][1] is not None and dotted(strip_cast(defs[0][1])) is not None:
+            return _root(fn, defs[0][1], depth + 1)
+    return dotted(e)
+
+
+def _is_raw(fn, recv, rawnames=(RAW,)) -> bool:
+    return dotted(origin(fn, recv)) in rawnames
+
+
+def _raw_calls(f, attr: str, rawnames=(RAW,)) -> List[ast.Call]:
+    return [c for c in fn_calls(f.node) if isinstance(c.func, ast.Attribute) and c.func.attr == attr and _is_raw(f.node, c.func.value, rawnames)]
+
+
+def _seek_args(c: ast.Call) -> Tuple[Optional[ast.AST], Optional[ast.AST]]:
+    off = c.args[0] if c.args else None
+    wh = c.args[1] if len(c.args) > 1 else None
+    for k in c.keywords:
+        if k.arg in ("offset", "pos", "cookie") and off is None:
+            off = k.value
+        elif k.arg == "whence" and wh is None:
+            wh = k.value
+    return off, wh
+
+
+def _narrow(ctx, f, name: str, at, mode: str):
+    """The single definition (stmt, value) of local `name` that can reach `at` once the constant alternatives that
+    contradict `mode` ('nonnull' | 'truthy' | 'falsy') are discarded - `r = None ... r = E ... if r is not None: use(r)`
+    is how an inlined "value or None" helper and a found-flag look.  None when not exactly one definition remains, or when
+    a local the remaining definition mentions may have been rebound between that definition and `at`."""
+    fv, cfg = FuncView.of(f.node), ctx.cfg(f)
+    rd = reaching_defs(ctx, f, name, at)
+    if not rd or any(v is None for _s, v in rd):
+        return None
+    keep = []
+    for st, v in rd:
+        v0 = strip_cast(v)
+        if isinstance(v0, ast.Constant):
+            c = v0.value
+            if (mode == "nonnull" and c is None) or (mode == "truthy" and not c) or (mode == "falsy" and c):
+                continue
+        keep.append((st, v))
+    if len(keep) != 1:
+        return None
+    S, E = keep[0]
+    sst = S if isinstance(S, ast.stmt) else fv.stmt_of(S)
+    ast_ = at if isinstance(at, ast.stmt) else fv.stmt_of(at)
+    if sst is None or ast_ is None or not cfg.has(sst) or not cfg.has(ast_):
+        return None
+    sn, an = cfg.node(sst), cfg.node(ast_)
+    alld = [cfg.node(x if isinstance(x, ast.stmt) else fv.stmt_of(x)) for x, _v in assignments_to(f.node, name) if cfg.has(x if isinstance(x, ast.stmt) else fv.stmt_of(x))]
+    for nm in {x.id for x in ast.walk(E) if isinstance(x, ast.Name) and x.id != name and x.id not in params(f.node)}:
+        for d, _v in assignments_to(f.node, nm):
+            dst = d if isinstance(d, ast.stmt) else fv.stmt_of(d)
+            if dst is None or not cfg.has(dst):
+                continue
+            dn = cfg.node(dst)
+            if isinstance(dst, (ast.For, ast.AsyncFor)):
+                dn = cfg.edge_node(dst, "iter")
+            if dn != sn and cfg.reaches(sn, dn, avoiding=[x for x in alld if x != sn]) and cfg.reaches(dn, an, avoiding=alld):
+                return None  # stale: the operand was rebound after the definition was evaluated
+    return S, E
+
+
+def _optionals(ctx, f, at) -> Dict[str, Tuple[ast.AST, ast.AST]]:
+    """root name -> (stmt, value): locals that a dominating `x is not None` / truthiness test at `at` narrows to one definition."""
+    fn = f.node
+    out: Dict[str, Tuple[ast.AST, ast.AST]] = {}
+    for _t, pol, t in dominating_conditions(ctx, f, at):
+        nm = None
+        if isinstance(t, ast.Name) and pol:
+            nm, mode = _root(fn, t), "truthy"
+        elif isinstance(t, ast.Compare) and len(t.ops) == 1 and isinstance(t.comparators[0], ast.Constant) and t.comparators[0].value is None \
+                and isinstance(t.ops[0], (ast.Is, ast.IsNot, ast.Eq, ast.NotEq)) and isinstance(strip_cast(t.left), ast.Name):
+            if isinstance(t.ops[0], (ast.IsNot, ast.NotEq)) == pol:
+                nm, mode = _root(fn, t.left), "nonnull"
+        if nm and "." not in nm and nm not in params(fn) and nm not in out and len(assignments_to(fn, nm)) > 1:
+            nd = _narrow(ctx, f, nm, at, mode)
+            if nd is not None:
+                out[nm] = nd
+    return out
+
+
+def _cond_nodes(ctx, f, node):
+    """(test, polarity) of the dominating branch edges of node; a test that is a single-definition flag is replaced by
+    its definition (the mirrored duplicates of comparisons are kept: all users are idempotent)."""
+    out, seen = [], set()
+    fv = FuncView.of(f.node)
+    if isinstance(node, ast.expr):
+        # expression-level guards: `A if test else B`
+        child = node
+        for anc in fv.ancestors(node):
+            if isinstance(anc, ast.stmt):
+                break
+            if isinstance(anc, ast.IfExp) and (anc.body is child or anc.orelse is child):
+                stack = [(anc.test, anc.body is child)]
+                while stack:
+                    e, pol = stack.pop()
+                    while isinstance(e, ast.UnaryOp) and isinstance(e.op, ast.Not):
+                        e, pol = e.operand, not pol
+                    if isinstance(e, ast.BoolOp) and isinstance(e.op, ast.And if pol else ast.Or):
+                        stack.extend((v, pol) for v in e.values)
+                    else:
+                        out.append((origin(f.node, e) if isinstance(e, ast.Name) else e, pol))
+            child = anc
+    for _t, pol, t in dominating_conditions(ctx, f, node):
+        if isinstance(t, ast.Name):
+            t = origin(f.node, t)
+            if isinstance(t, ast.Name) and t.id not in params(f.node) and fv.stmt_of(t) is not None:
+                # a flag with several definitions: on this edge only the definitions compatible with its truth value count
+                nd = _narrow(ctx, f, t.id, fv.stmt_of(t), "truthy" if pol else "falsy")
+                if nd is not None:
+                    t = nd[1]
+        if (id(t), pol) not in seen:
+            seen.add((id(t), pol))
+            out.append((t, pol))
+    return out
+
+
+def _linear_facts(ctx, f, node, poly) -> List[SymPoly]:
+    """Integer facts `p <= 0` established by the branch edges that dominate node (poly: expression -> SymPoly|None)."""
+    facts = []
+    for t, pol in _cond_nodes(ctx, f, node):
+        parts = compare_parts(t, mirrored=False)
+        if not parts or (len(parts) > 1 and not pol):
+            continue
+        for l, op, r in parts:
+            a, b = poly(l), poly(r)
+            if a is None or b is None:
+                continue
+            one = SymPoly.const(1)
+            kind = type(op)
+            if not pol and kind not in (ast.Eq, ast.NotEq):
+                kind = {ast.Lt: ast.GtE, ast.GtE: ast.Lt, ast.Gt: ast.LtE, ast.LtE: ast.Gt}.get(kind)
+            if kind is ast.Eq and pol or kind is ast.NotEq and not pol:
+                facts += [a - b, b - a]
+            elif kind is ast.Lt:
+                facts.append(a - b + one)
+            elif kind is ast.LtE:
+                facts.append(a - b)
+            elif kind is ast.Gt:
+                facts.append(b - a + one)
+            elif kind is ast.GtE:
+                facts.append(b - a)
+    return facts
+
+
+def _equalities(ctx, f, node) -> List[ast.Compare]:
+    """Equality comparisons known to hold at node (an `==` on its true edge, a `!=` on its false edge)."""
+    out = []
+    for t, pol in _cond_nodes(ctx, f, node):
+        if isinstance(t, ast.Compare) and len(t.ops) == 1 and ((isinstance(t.ops[0], ast.Eq) and pol) or (isinstance(t.ops[0], ast.NotEq) and not pol)):
+            out.append(t)
+    return out
+
+
+def _simulate(ctx, f, calls, start: SymPoly, poly, rawnames=(RAW,), scope=None):
+    """Walk straight-line seek/read calls on the underlying file (those directly in `scope`, default the function body):
+    returns (final position | None, {id(read): (start, len)}, problem | None)."""
+    fv = FuncView.of(f.node)
+    pos: Optional[SymPoly] = start
+    spans: Dict[int, Tuple[SymPoly, int]] = {}
+    branching = (ast.If, ast.For, ast.While, ast.ExceptHandler, ast.IfExp, ast.ListComp, ast.GeneratorExp, ast.SetComp, ast.DictComp, ast.BoolOp, ast.Lambda)
+    for c in calls:
+        if not (isinstance(c.func, ast.Attribute) and _is_raw(f.node, c.func.value, rawnames)):
+            continue
+        a = c.func.attr
+        if a in ("tell", "seekable", "readable", "fileno"):
+            continue
+        anc = fv.ancestors(c)
+        if scope is not None:
+            if not any(x is scope for x in anc):
+                continue
+            anc = anc[: [i for i, x in enumerate(anc) if x is scope][0]]
+        if any(isinstance(x, branching) for x in anc):
+            return None, spans, f"`{src(c)}` is executed conditionally"
+        if a == "seek":
+            off, wh = _seek_args(c)
+            w = 0 if wh is None else _const(ctx, f, wh)
+            p = poly(off) if off is not None else None
+            if p is None or w not in (0, 1) or (w == 1 and pos is None):
+                return None, spans, f"cannot follow `{src(c)}`"
+            pos = p if w == 0 else pos + p
+        elif a == "read":
+            k = _const(ctx, f, c.args[0]) if c.args else None
+            if not _is_int(k) or k < 0 or pos is None:
+                return None, spans, f"cannot follow `{src(c)}`"
+            spans[id(c)] = (pos, k)
+            pos = pos + SymPoly.const(k)
+        else:
+            return None, spans, f"unknown operation `{src(c)}` on the underlying file"
+    return pos, spans, None
+
+
+def _span_of(ctx, f, e, spans, depth: int = 0):
+    """(start, length) of the raw bytes an expression holds: a read, or a constant slice of one."""
+    if e is None or depth > 6:
+        return None
+    e = origin(f.node, e)
+    if isinstance(e, ast.Call):
+        return spans.get(id(e))
+    if isinstance(e, ast.Subscript) and isinstance(e.slice, ast.Slice) and e.slice.step is None:
+        base = _span_of(ctx, f, e.value, spans, depth + 1)
+        if base is None:
+            return None
+        lo = 0 if e.slice.lower is None else _const(ctx, f, e.slice.lower)
+        hi = base[1] if e.slice.upper is None else _const(ctx, f, e.slice.upper)
+        if _is_int(lo) and _is_int(hi) and 0 <= lo <= hi <= base[1]:
+            return base[0] + SymPoly.const(lo), hi - lo
+    return None
 
 
 def run(ctx):
@@ -38,8 +445,8 @@ def run(ctx):
         "Static analysis of xordecode.py: the header length is compared as a polynomial (nonce_offset + 8) across tell(), "
         "seek(SEEK_SET), the cursor after __init__, the size relation of iter_nonce_offsets and the first-word boundary of "
         "read_nonce; read() is checked for read accounting (every path returns exactly the bytes it consumed: either the "
-        "whole decoded data, or a truncation preceded by a relative give-back seek of n - len(data); n == 0 consumes nothing); "
-        "the rolling key chains on ciphertext; detection returns a candidate only after the MZ validation and a rewind."
+        "whole decoded data, or a truncation preceded by a relative give-back seek of n - <bytes consumed>; n == 0 consumes "
+        "nothing); the rolling key chains on ciphertext; detection returns a candidate only after the MZ validation and a rewind."
     )
     rep.not_decided = ["plaintext equality for all seek/read histories", "most_common ordering of candidates"]
     rep.trusted_base = ["CPython ast", "networkx dominators", "SymPoly normal form"]
@@ -53,243 +460,1522 @@ def run(ctx):
     ctx.import_obligations("R5", c15.scanner_obligations, "")
 
 
+# ============================================================================================== R1: header length
 def r1(ctx):
-    tell = ctx.repo.func("xordecode.XorEncodedFile.tell")
-    rets = [s for s in statements(tell.node) if isinstance(s, ast.Return)]
-    p = _expand(tell.node, rets[0].value) if len(rets) == 1 else None
-    want = SymPoly.atom("self.fh.tell()") - H
-    ctx.ob("R1", "CURSOR", tell, "return " + (src(rets[0].value) if rets else "?"), p == want, f"tell() = {p}; required raw position - (nonce_offset + 8)")
-    seek = ctx.repo.func("xordecode.XorEncodedFile.seek")
+    _r1_tell(ctx)
+    _r1_seek(ctx)
+    _r1_init(ctx)
+    _r1_size_relation(ctx)
+    _r1_first_word(ctx)
+
+
+def _raw_tell_special(f):
+    def sp(x):
+        if isinstance(x, ast.Call) and isinstance(x.func, ast.Attribute) and x.func.attr == "tell" and not x.args and _is_raw(f.node, x.func.value):
+            return POS
+        return None
+
+    return sp
+
+
+def _r1_tell(ctx):
+    tell = ctx.repo.func(f"{CLS}.tell")
+    rets = [s for s in statements(tell.node) if isinstance(s, ast.Return) and s.value is not None]
+    if not rets:
+        ctx.undecided("R1", "CURSOR", tell, "return ?", "tell() has no return value to compare")
+        return
+    want = POS - H
+    for r in rets:
+        p = _poly(ctx, tell, r.value, _raw_tell_special(tell))
+        _emit(ctx, "R1", "CURSOR", tell, "return " + src(r.value), _verdict(p, want),
+              f"tell() = {p}: raw position - (nonce_offset + 8)", f"tell() = {p}; required raw position - (nonce_offset + 8)", r)
+
+
+def _exec_seek(ctx, f, off: str, wh: str, v: int):
+    """Run seek(offset, whence) symbolically for whence == v (structured statements, tests on whence decided, offset
+    arithmetic kept as polynomials): (status 'done'|'fall'|'unknown', [(call, offset poly, whence passed)])."""
+    fn = f.node
+    env: Dict[str, Optional[SymPoly]] = {wh: SymPoly.const(v)}
+    seeks: List[Tuple[ast.Call, Optional[SymPoly], Optional[int]]] = []
+
+    def sp(x):
+        if isinstance(x, ast.Name) and x.id in env:
+            return env[x.id] if env[x.id] is not None else SymPoly.atom(f"<{x.id}?>")
+        if isinstance(x, ast.IfExp):
+            t = tv(x.test)
+            if t is not None:
+                return poly(x.body if t else x.orelse)
+        if isinstance(x, ast.Call) and isinstance(x.func, ast.Attribute) and x.func.attr == "get" and 1 <= len(x.args) <= 2 and not x.keywords:
+            # {SEEK_SET: shift}.get(whence, 0): a table keyed by constants
+            tab = origin(fn, x.func.value)
+            k = cval(x.args[0])
+            if isinstance(tab, ast.Dict) and k is not None and all(kk is not None and _is_int(_const(ctx, f, kk)) for kk in tab.keys):
+                for kk, vv in zip(tab.keys, tab.values):
+                    if _const(ctx, f, kk) == k:
+                        return poly(vv)
+                return poly(x.args[1]) if len(x.args) == 2 else None
+        return None
+
+    def poly(e):
+        return _poly(ctx, f, e, sp)
+
+    def cval(e):
+        p = poly(e)
+        c = p.const_value() if p is not None else None
+        return int(c) if c is not None and c.denominator == 1 else None
+
+    def tv(t):
+        if isinstance(t, ast.UnaryOp) and isinstance(t.op, ast.Not):
+            x = tv(t.operand)
+            return None if x is None else not x
+        if isinstance(t, ast.BoolOp):
+            vals = [tv(x) for x in t.values]
+            if isinstance(t.op, ast.And):
+                return False if any(x is False for x in vals) else (True if all(x is True for x in vals) else None)
+            return True if any(x is True for x in vals) else (False if all(x is False for x in vals) else None)
+        if isinstance(t, ast.Compare) and len(t.ops) == 1:
+            op, l, r = t.ops[0], t.left, t.comparators[0]
+            a = cval(l)
+            if isinstance(op, (ast.In, ast.NotIn)):
+                vals = _const(ctx, f, r)
+                if a is None or not isinstance(vals, (tuple, list, set, frozenset)):
+                    return None
+                return (a in vals) == isinstance(op, ast.In)
+            b = cval(r)
+            if a is None or b is None:
+                return None
+            for kind, fn_ in ((ast.Eq, lambda: a == b), (ast.Is, lambda: a == b), (ast.NotEq, lambda: a != b), (ast.IsNot, lambda: a != b),
+                              (ast.Lt, lambda: a < b), (ast.LtE, lambda: a <= b), (ast.Gt, lambda: a > b), (ast.GtE, lambda: a >= b)):
+                if isinstance(op, kind):
+                    return fn_()
+            return None
+        if isinstance(t, ast.Constant):
+            return bool(t.value)
+        c = cval(t)
+        return None if c is None else bool(c)
+
+    def collect(e):
+        if e is None:
+            return
+        for c in sorted((x for x in ast.walk(e) if isinstance(x, ast.Call)), key=lambda c: (getattr(c, "lineno", 0), getattr(c, "col_offset", 0))):
+            if isinstance(c.func, ast.Attribute) and c.func.attr == "seek" and _is_raw(fn, c.func.value):
+                a, w = _seek_args(c)
+                seeks.append((c, poly(a) if a is not None else None, 0 if w is None else cval(w)))
+
+    def touches(st) -> bool:
+        for x in ast.walk(st):
+            if isinstance(x, ast.Call) and isinstance(x.func, ast.Attribute) and _is_raw(fn, x.func.value) and x.func.attr not in ("tell",):
+                return True
+            if isinstance(x, ast.Name) and isinstance(x.ctx, ast.Store) and x.id in (off, wh):
+                return True
+            if isinstance(x, (ast.Return, ast.Raise)):
+                return True
+        return False
+
+    def _match_case(pat, subj):
+        """True/False: the pattern matches the int subject; None: not a pattern of constants"""
+        if isinstance(pat, ast.MatchValue):
+            c = cval(pat.value)
+            return None if c is None else c == subj
+        if isinstance(pat, ast.MatchOr):
+            vals = [_match_case(x, subj) for x in pat.patterns]
+            return None if any(x is None for x in vals) else any(vals)
+        if isinstance(pat, ast.MatchAs) and pat.pattern is None:
+            return True
+        return None
+
+    def run(body) -> str:
+        for st in body:
+            if isinstance(st, ast.If):
+                t = tv(st.test)
+                if t is None:
+                    if not touches(st):
+                        continue
+                    return "unknown"
+                r = run(st.body if t else st.orelse)
+                if r != "fall":
+                    return r
+            elif isinstance(st, getattr(ast, "Match", ())):
+                subj = cval(st.subject)
+                chosen = None
+                for case in st.cases:
+                    hit = _match_case(case.pattern, subj)
+                    if hit is None or case.guard is not None or subj is None:
+                        chosen = "unknown"
+                        break
+                    if hit:
+                        chosen = case
+                        break
+                if chosen == "unknown":
+                    if touches(st):
+                        return "unknown"
+                    continue
+                if chosen is not None:
+                    r = run(chosen.body)
+                    if r != "fall":
+                        return r
+            elif isinstance(st, ast.Assign) and len(st.targets) == 1 and isinstance(st.targets[0], ast.Name):
+                collect(st.value)
+                env[st.targets[0].id] = poly(st.value)
+            elif isinstance(st, ast.AugAssign) and isinstance(st.target, ast.Name) and isinstance(st.op, (ast.Add, ast.Sub)):
+                collect(st.value)
+                cur, d = poly(ast.Name(id=st.target.id, ctx=ast.Load())), poly(st.value)
+                env[st.target.id] = None if cur is None or d is None else (cur + d if isinstance(st.op, ast.Add) else cur - d)
+            elif isinstance(st, ast.Return):
+                collect(st.value)
+                return "done"
+            elif isinstance(st, ast.Raise):
+                return "done"
+            elif isinstance(st, (ast.Expr, ast.Assign, ast.AnnAssign)):
+                collect(getattr(st, "value", None))
+            elif isinstance(st, ast.Pass):
+                continue
+            elif touches(st):
+                return "unknown"
+        return "fall"
+
+    return run(fn.body), seeks
+
+
+def _r1_seek(ctx):
+    seek = ctx.repo.func(f"{CLS}.seek")
     ps = params(seek.node)
+    t_all = "both whence classes handled"
+    if len(ps) < 3 or not _raw_calls(seek, "seek"):
+        ctx.undecided("R1", "CURSOR", seek, t_all, "seek(offset, whence) does not forward to a seek of the underlying file that can be located")
+        return
     off, wh = ps[1], ps[2]
-    calls = [c for c in fn_calls(seek.node) if dotted(c.func) == "self.fh.seek"]
-    set_ok = other_ok = False
-    for c in calls:
-        conds = dominating_conditions(ctx, seek, c)
-        is_set = any(pol and t in (f"{wh} == io.SEEK_SET", f"{wh} == 0", f"{wh} == os.SEEK_SET") for t, pol, n in conds)
-        a = sympoly(c.args[0]) if c.args else None
-        w = c.args[1] if len(c.args) > 1 else kwarg(c, "whence")
-        if is_set:
-            set_ok = a == SymPoly.atom(off) + H and (w is None or dotted(w) == wh or dotted(w) == "io.SEEK_SET")
-            ctx.ob("R1", "CURSOR", seek, src(c), set_ok, f"seek(SEEK_SET) moves the raw file to {a}; required offset + (nonce_offset + 8)", c)
+    OFF = SymPoly.atom(off)
+    served = {}
+    for v, name in ((0, "SEEK_SET"), (1, "SEEK_CUR"), (2, "SEEK_END")):
+        status, seeks = _exec_seek(ctx, seek, off, wh, v)
+        text = f"seek(offset, {name})"
+        if status == "unknown" or len(seeks) > 1:
+            served[v] = "unknown"
+            ctx.undecided("R1", "CURSOR", seek, text, f"cannot follow seek() for whence == {name}" + (f": {len(seeks)} seeks of the underlying file" if len(seeks) > 1 else ""))
+            continue
+        if not seeks:
+            served[v] = "bad"
+            ctx.ob("R1", "CURSOR", seek, text, False, f"with whence == {name} the underlying file is not moved at all")
+            continue
+        served[v] = "ok"
+        c, pa, pw = seeks[0]
+        if pw is None or pw != (0 if v == 0 else v):
+            ctx.undecided("R1", "CURSOR", seek, text, f"whence == {name} is served by `{src(c)}` with whence {pw if pw is not None else '?'}: not a plain translation/forwarding", c)
+            continue
+        if v == 0:
+            _emit(ctx, "R1", "CURSOR", seek, text, _verdict(pa, OFF + H), f"moves the raw file to {pa}: offset + (nonce_offset + 8)",
+                  f"seek(SEEK_SET) moves the raw file to {pa}; required offset + (nonce_offset + 8)", c)
         else:
-            other_ok = a == SymPoly.atom(off) and dotted(w) == wh
-            ctx.ob("R1", "CURSOR", seek, src(c), other_ok, f"relative/end seeks are forwarded unchanged={other_ok}", c)
-    ctx.ob("R1", "CURSOR", seek, "both whence classes handled", set_ok and other_ok and len(calls) == 2, f"{len(calls)} underlying seeks (one for SEEK_SET, one forwarding)")
-    rets = [s for s in statements(seek.node) if isinstance(s, ast.Return)]
-    init = ctx.repo.func("xordecode.XorEncodedFile.__init__")
-    ops = []
-    for c in fn_calls(init.node):
-        if dotted(c.func) == "self.fh.seek":
-            ops.append(("seek", sympoly(c.args[0])))
-        elif dotted(c.func) == "self.fh.read":
-            ops.append(("read", _c(c.args[0])))
-    pos = None
-    ok = True
-    for kind, v in ops:
-        if kind == "seek":
-            pos = v
-        elif pos is not None and isinstance(v, int):
-            pos = pos + SymPoly.const(v)
-        else:
-            ok = False
-    ctx.ob("R1", "CURSOR", init, "cursor after __init__", ok and pos == H, f"raw cursor after the constructor is {pos}; required nonce_offset + 8 (logical position 0)")
-    st = {dotted(s.targets[0]): s.value for s in statements(init.node) if isinstance(s, ast.Assign)}
-    names = [k for k, v in st.items() if isinstance(v, ast.Call) and dotted(v.func) == "self.fh.read"]
-    ctx.ob("R1", "AGREE", init, "initial_nonce, nonced_filesize", names == ["self.initial_nonce", "self.nonced_filesize"], f"the two header words are stored as {names}")
+            _emit(ctx, "R1", "CURSOR", seek, text, _verdict(pa, OFF, vocab=H.atoms()), "relative/end seeks are forwarded unchanged",
+                  f"relative/end seeks move the raw file by {pa}; required: forwarded unchanged", c)
+    v_all = _worst(served.values())
+    _emit(ctx, "R1", "CURSOR", seek, t_all, v_all, "SEEK_SET, SEEK_CUR and SEEK_END all reach the underlying file",
+          f"whence values reaching the underlying file: { {k: v for k, v in served.items()} }; required: all of SEEK_SET, SEEK_CUR, SEEK_END")
+
+
+def _r1_init(ctx):
+    init = ctx.repo.func(f"{CLS}.__init__")
+    fn = init.node
+    # `self.fh = fh` / `self.nonce_offset = nonce_offset`: the parameter and the attribute are the same value
+    alias = {}
+    for st in statements(fn):
+        if isinstance(st, ast.Assign) and len(st.targets) == 1 and isinstance(st.value, ast.Name) and st.value.id in params(fn) and not assignments_to(fn, st.value.id):
+            d = dotted(st.targets[0])
+            if d and d.startswith("self.") and d.count(".") == 1:
+                alias[st.value.id] = d
+    rawnames = (RAW,) + tuple(p for p, d in alias.items() if d == RAW)
+
+    def sp(x):
+        if isinstance(x, ast.Name) and x.id in alias:
+            return SymPoly.atom(alias[x.id])
+        return None
+
+    def poly(e):
+        return _poly(ctx, init, e, sp)
+
+    pos, spans, problem = _simulate(ctx, init, fn_calls(fn), None, poly, rawnames)
+    if problem is not None or pos is None:
+        ctx.undecided("R1", "CURSOR", init, "cursor after __init__", problem or "the constructor does not position the underlying file")
+    else:
+        _emit(ctx, "R1", "CURSOR", init, "cursor after __init__", _verdict(pos, H),
+              f"raw cursor after the constructor is {pos}: nonce_offset + 8 (logical position 0)", f"raw cursor after the constructor is {pos}; required nonce_offset + 8 (logical position 0)")
+    # the two header words: initial_nonce = raw[nonce_offset : +4], nonced_filesize = raw[nonce_offset + 4 : +4]
+    NO = SymPoly.atom("self.nonce_offset")
+    want = {"self.initial_nonce": (NO, 4), "self.nonced_filesize": (NO + SymPoly.const(4), 4)}
+    got = {}
+    for st in statements(fn):
+        if isinstance(st, ast.Assign):
+            for t in st.targets:
+                if dotted(t) in want:
+                    got.setdefault(dotted(t), []).append(st.value)
+                elif isinstance(t, (ast.Tuple, ast.List)) and any(dotted(x) in want for x in t.elts):
+                    paired = isinstance(st.value, (ast.Tuple, ast.List)) and len(st.value.elts) == len(t.elts)
+                    for k, x in enumerate(t.elts):
+                        if dotted(x) in want:
+                            got.setdefault(dotted(x), []).append(st.value.elts[k] if paired else ast.Subscript(value=st.value, slice=ast.Constant(value=k), ctx=ast.Load()))
+    vs, notes = [], []
+    if "self.initial_nonce" not in got:
+        vs.append("unknown")
+        notes.append("initial_nonce is not bound in the constructor")
+    for name, vals in got.items():
+        for v in vals:
+            sp_ = _span_of(ctx, init, v, spans) if problem is None else None
+            if sp_ is None:
+                vs.append("unknown")
+                notes.append(f"{name} = {src(v)}: not a located header read")
+            elif sp_[1] == want[name][1] and sp_[0] == want[name][0]:
+                vs.append("ok")
+                notes.append(f"{name} = raw[{sp_[0]} : +{sp_[1]}]")
+            else:
+                vs.append("bad" if sp_[0].atoms() <= NO.atoms() else "unknown")
+                notes.append(f"{name} = raw[{sp_[0]} : +{sp_[1]}]; required raw[{want[name][0]} : +4]")
+    _emit(ctx, "R1", "AGREE", init, "initial_nonce, nonced_filesize", _worst(vs), "the two header words: " + "; ".join(notes), "; ".join(notes))
+
+
+def _origin1(fn, e, depth: int = 0):
+    """origin() that also sees through a one-element unpacking `(x,) = E` (as `E[0]`)."""
+    e = origin(fn, e)
+    if isinstance(e, ast.Name) and e.id not in params(fn) and depth < 4:
+        hits = [st for st in statements(fn) if isinstance(st, ast.Assign) and len(st.targets) == 1 and isinstance(st.targets[0], (ast.Tuple, ast.List))
+                and any(isinstance(x, ast.Name) and x.id == e.id for x in st.targets[0].elts)]
+        if len(hits) == 1 and len(assignments_to(fn, e.id)) == 1 and len(hits[0].targets[0].elts) == 1:
+            return ast.Subscript(value=hits[0].value, slice=ast.Constant(value=0), ctx=ast.Load())
+    return e
+
+
+def _u32le_operand(ctx, f, e):
+    """('ok', operand) when e decodes `operand` as an unsigned little-endian 32-bit integer, ('bad', why) when it is an
+    integer decode with other parameters, None when e is not a recognised decode."""
+    e = strip_cast(e)
+    if isinstance(e, ast.Subscript) and isinstance(e.value, ast.Call) and dotted(e.value.func) == "struct.unpack" and _c(e.slice) == 0 and len(e.value.args) == 2:
+        fmt = _const(ctx, f, e.value.args[0])
+        return ("ok", e.value.args[1]) if fmt in ("<I", "<L") else ("bad", f"struct format {fmt!r}")
+    if not isinstance(e, ast.Call):
+        return None
+    cal = ctx.rs.resolve_call(f, e)
+    if cal.kind == "func" and cal.func is not None and cal.func.fq == "utils.unpack":
+        callee = cal.func.node
+        b = bind_args(e, callee)
+        names = params(callee)
+        explicit = set(names[: len(e.args)]) | {k.arg for k in e.keywords}
+        for k, v in (cal.bound or {}).items():
+            if k not in explicit:
+                b[k] = v
+        size, order, signed = _const(ctx, f, b.get("size")), _const(ctx, f, b.get("byteorder")), _const(ctx, f, b.get("signed"))
+        if size == 4 and order == "little" and not signed:
+            return "ok", b.get("data")
+        return "bad", f"size={size}, byteorder={order}, signed={signed}"
+    if dotted(e.func) == "int.from_bytes" and e.args:
+        order = e.args[1] if len(e.args) > 1 else None
+        signed = None
+        for k in e.keywords:
+            if k.arg == "byteorder":
+                order = k.value
+            elif k.arg == "signed":
+                signed = k.value
+        o, s = _const(ctx, f, order), (_const(ctx, f, signed) if signed is not None else False)
+        if o == "little" and s is False:
+            return "ok", e.args[0]
+        return "bad", f"int.from_bytes(byteorder={o!r}, signed={s})"
+    return None
+
+
+def _r1_size_relation(ctx):
     ino = ctx.repo.func("xordecode.iter_nonce_offsets")
-    ok = False
-    detail = "no `decoded_size + i + 8 == real_size` relation"
-    # roles: i = the scan variable (for-target over range), D = the decoded size (u32 of the XOR of the two header words),
-    # T = the total size (the function's second parameter)
-    loopv = [dotted(s2.target) for s2 in statements(ino.node) if isinstance(s2, ast.For) and isinstance(s2.iter, ast.Call) and dotted(s2.iter.func) == "range"]
-    total = params(ino.node)[1]
-    dvar = None
-    ds_ok = False
-    for s2 in statements(ino.node):
-        if isinstance(s2, ast.Assign) and isinstance(s2.value, ast.Call) and isinstance(s2.targets[0], ast.Name):
-            cal = ctx.rs.resolve_call(ino, s2.value)
-            a0 = origin(ino.node, s2.value.args[0]) if s2.value.args else None
-            if cal.kind == "func" and cal.func.fq == "utils.unpack" and isinstance(a0, ast.Call) and ctx.rs.resolve_call(ino, a0).fq == "utils.xor":
-                dvar = s2.targets[0].id
-                x = a0
-                # both XOR operands are the two consecutive 4-byte reads of this iteration
-                ops = [origin(ino.node, a) for a in x.args]
-                two_reads = len(ops) == 2 and all(isinstance(o, ast.Call) and isinstance(o.func, ast.Attribute) and o.func.attr == "read" and _c(o.args[0]) == 4 for o in ops) and ops[0] is not ops[1]
-                ds_ok = two_reads and _c(cal.bound.get("size")) == 4 and (_c(cal.bound.get("byteorder")) or "little") == "little"
-    for n in body_walk(ino.node):
-        if isinstance(n, ast.Compare) and isinstance(n.ops[0], ast.Eq) and dvar and loopv:
-            l, r = sympoly(n.left), sympoly(n.comparators[0])
-            if l is not None and r is not None:
-                diff = l - r
-                want = SymPoly.atom(dvar) + SymPoly.atom(loopv[0]) + SymPoly.const(8) - SymPoly.atom(total)
-                if diff == want or diff == -want:
-                    ok = True
-                    detail = f"size relation {src(n)}: header length 8 agrees with tell/seek"
-                else:
-                    detail = f"size relation {src(n)} = {diff}; required <decoded size> + <offset> + 8 - <total size>"
-    ctx.ob("R1", "CURSOR", ino, "size relation", ok, detail)
-    ctx.ob("R1", "AGREE", ino, "decoded_size = u32(xor(nonce, size))", bool(ds_ok), "size dword is un-XORed with the nonce (the two 4-byte words read at the candidate) and read little-endian" if ds_ok else "decoded size is not u32-le(xor(<nonce word>, <size word>))")
-    rn = ctx.repo.func("xordecode.XorEncodedFile.read_nonce")
-    ok1 = ok2 = False
-    posv = [dotted(s2.targets[0]) for s2 in statements(rn.node) if isinstance(s2, ast.Assign) and src(s2.value) == "self.fh.tell()"]
-    posv = posv[0] if posv else "pos"
-    for n in body_walk(rn.node):
-        for l, op, r in compare_parts(n):
-            if isinstance(op, ast.Lt) and dotted(l) == posv:
-                ok1 = ok1 or sympoly(r) == H + SymPoly.const(4)
-    for s2 in statements(rn.node):
-        if isinstance(s2, ast.Assign) and sympoly(s2.value) == SymPoly.atom(posv) - H:
-            ok2 = True
-    ctx.ob("R1", "CURSOR", rn, "first-word boundary", ok1 and ok2, f"initial nonce used while pos < nonce_offset + 12={ok1}; offset within the first word = pos - (nonce_offset + 8)={ok2}")
+    fn = ino.node
+    ps = params(fn)
+    yields = [n for n in body_walk(fn) if isinstance(n, ast.Yield)]
+    cands = {dotted(y.value) for y in yields if y.value is not None}
+    if not yields or len(cands) != 1 or None in cands or len(ps) < 2:
+        for text in ("size relation", "decoded_size = u32(xor(nonce, size))"):
+            ctx.undecided("R1", "CURSOR" if text == "size relation" else "AGREE", ino, text, "iter_nonce_offsets does not yield a single scan variable guarded by a size test")
+        return
+    i = cands.pop()
+    # names that hold the total size: the second parameter and locals computed from it
+    totals = {ps[1]}
+    for _ in range(3):
+        for st in statements(fn):
+            if isinstance(st, ast.Assign) and len(st.targets) == 1 and isinstance(st.targets[0], ast.Name) and any(isinstance(n, ast.Name) and n.id in totals for n in ast.walk(st.value)) \
+                    and not isinstance(strip_cast(st.value), (ast.BinOp, ast.UnaryOp)):  # arithmetic on the total is expanded, not a total itself
+                totals.add(st.targets[0].id)
+    totals.discard(i)
+    calls: Dict[str, ast.AST] = {}
+
+    def sp(x):
+        if isinstance(x, (ast.Call, ast.Subscript)):
+            calls.setdefault(src(x), x)
+        if isinstance(x, ast.Subscript):
+            return SymPoly.atom(src(x))
+        if isinstance(x, ast.BinOp) and not isinstance(x.op, (ast.Add, ast.Sub, ast.Mult, ast.Div)):
+            calls.setdefault(src(x), x)  # e.g. u32(nonce) ^ u32(size): an opaque term of the relation
+            return SymPoly.atom(src(x))
+        return None
+
+    I, EIGHT = SymPoly.atom(i), SymPoly.const(8)
+    verdicts, details, decoded = [], [], []
+    for y in yields:
+        found = None
+        for eq in _equalities(ctx, ino, y):
+            l, r = _poly(ctx, ino, eq.left, sp, stop=frozenset(totals | {i})), _poly(ctx, ino, eq.comparators[0], sp, stop=frozenset(totals | {i}))
+            if l is None or r is None:
+                continue
+            diff = l - r
+            rest = diff.atoms() - {i} - totals
+            tot = diff.atoms() & totals
+            if len(rest) != 1 or len(tot) != 1 or not (diff.atoms() >= {i}):
+                if rest and tot:
+                    found = found or ("unknown", f"size relation {src(eq)} = {diff} is not over <decoded size>, <offset>, <total size> only", None)
+                continue
+            D = rest.pop()
+            want = SymPoly.atom(D) + I + EIGHT - SymPoly.atom(tot.pop())
+            if diff == want or diff == -want:
+                found = ("ok", f"size relation {src(eq)}: header length 8 agrees with tell/seek", D)
+            else:
+                found = ("bad", f"size relation {src(eq)} = {diff}; required <decoded size> + <offset> + 8 - <total size>", D)
+            break
+        if found is None:
+            found = ("bad", "a candidate offset is yielded without a dominating `decoded size + offset + 8 == total size` test", None)
+        verdicts.append(found[0])
+        details.append(found[1])
+        if found[2] is not None:
+            decoded.append(found[2])
+    v = _worst(verdicts)
+    pick = [d for x, d in zip(verdicts, details) if x == v]
+    _emit(ctx, "R1", "CURSOR", ino, "size relation", v, pick[0], pick[0])
+    # the decoded size: u32-le of the XOR of the two 4-byte words read at the candidate
+    text = "decoded_size = u32(xor(nonce, size))"
+    if not decoded:
+        ctx.undecided("R1", "AGREE", ino, text, "no size relation located: the decoded size cannot be identified")
+        return
+    vs, notes = [], []
+    for D in dict.fromkeys(decoded):
+        e = calls.get(D)
+        if e is None and D.isidentifier():
+            e = _origin1(fn, ast.Name(id=D, ctx=ast.Load()))
+        ops = None
+        if isinstance(e, ast.BinOp) and isinstance(e.op, ast.BitXor):
+            # u32(a) ^ u32(b) == u32(xor(a, b))
+            sides = [_u32le_operand(ctx, ino, _origin1(fn, x)) for x in (e.left, e.right)]
+            if any(d is None for d in sides):
+                vs.append("unknown")
+                notes.append(f"decoded size `{D}`: the XOR operands are not recognised integer decodes")
+                continue
+            if any(d[0] == "bad" for d in sides):
+                vs.append("bad")
+                notes.append(f"decoded size `{D}` is not the XOR of two unsigned little-endian u32 ({[d[1] for d in sides if d[0] == 'bad'][0]})")
+                continue
+            ops = [d[1] for d in sides]
+        else:
+            dec = _u32le_operand(ctx, ino, e) if e is not None else None
+            if dec is None:
+                vs.append("unknown")
+                notes.append(f"decoded size `{D}` is not a recognised integer decode")
+                continue
+            if dec[0] == "bad":
+                vs.append("bad")
+                notes.append(f"decoded size `{D}` is not an unsigned little-endian u32 ({dec[1]})")
+                continue
+            x = origin(fn, dec[1]) if dec[1] is not None else None
+            if not (isinstance(x, ast.Call) and ctx.rs.resolve_call(ino, x).fq == "utils.xor"):
+                vs.append("bad" if isinstance(x, (ast.Call, ast.Name, ast.Subscript)) else "unknown")
+                notes.append(f"decoded size is u32 of `{src(x)}`: not the XOR of the nonce word and the size word")
+                continue
+            ops = list(x.args) + [k.value for k in x.keywords]
+        # the words: raw[i : i + 4] and raw[i + 4 : i + 8], read in the scan iteration that yields i
+        fv = FuncView.of(fn)
+        loop = fv.enclosing(yields[0], (ast.For, ast.While))
+        _pos, spans, problem = _simulate(ctx, ino, fn_calls(fn), None, lambda e: _poly(ctx, ino, e, stop=frozenset({i})), rawnames=(ps[0],), scope=loop) if loop is not None else (None, {}, "no scan loop")
+        got = [_span_of(ctx, ino, o, spans) for o in ops]
+        if problem is not None or len(ops) != 2 or any(g is None for g in got):
+            located = len(ops) == 2 and all(isinstance(origin(fn, o), (ast.Call, ast.Subscript)) for o in ops) and problem is None
+            vs.append("unknown" if not located else "bad")
+            notes.append(f"XOR operands {[src(o) for o in ops]} cannot be placed in the file" + (f" ({problem})" if problem else ""))
+            continue
+        need = {(I, 4), (I + SymPoly.const(4), 4)}
+        two = set(got) == need
+        vs.append("ok" if two else ("bad" if all(g[0].atoms() <= {i} for g in got) else "unknown"))
+        notes.append("size dword is un-XORed with the nonce (the two 4-byte words read at the candidate) and read little-endian" if two else
+                     f"XOR operands are {[f'raw[{g[0]} : +{g[1]}]' for g in got]}: not the two 4-byte words at the candidate offset")
+    _emit(ctx, "R1", "AGREE", ino, text, _worst(vs), "; ".join(notes), "; ".join(notes))
+
+
+def _r1_first_word(ctx):
+    rn = ctx.repo.func(f"{CLS}.read_nonce")
+    fn = rn.node
+    fv = FuncView.of(fn)
+    text = "first-word boundary"
+    posv = {st.targets[0].id for st in statements(fn) if isinstance(st, ast.Assign) and len(st.targets) == 1 and isinstance(st.targets[0], ast.Name)
+            and _raw_tell_special(rn)(strip_cast(st.value)) is not None}
+    tell_sp = _raw_tell_special(rn)
+
+    def sp(x):
+        if isinstance(x, ast.Name) and x.id in posv:
+            return POS
+        return tell_sp(x)
+
+    def poly(e):
+        return _poly(ctx, rn, e, sp, stop=frozenset(posv))
+
+    # the sinks: every use of self.initial_nonce (normally its slice from the offset within the first word)
+    sinks = []
+    for n in body_walk(fn):
+        if isinstance(n, ast.Attribute) and isinstance(n.ctx, ast.Load) and dotted(n) == "self.initial_nonce":
+            par = fv.parent.get(id(n))
+            sinks.append(par if isinstance(par, ast.Subscript) and par.value is n else n)
+    if not sinks:
+        ctx.undecided("R1", "CURSOR", rn, text, "read_nonce does not use self.initial_nonce: the first-word handling cannot be located")
+        return
+    FOUR = SymPoly.const(4)
+    want_fact = POS - H - FOUR + SymPoly.const(1)  # pos < nonce_offset + 12
+    vs, notes = [], []
+    for s in sinks:
+        # a "value or None" offset (an inlined helper): under the None test its only other definition is the value, and
+        # what guards that definition guards the sink
+        opt = _optionals(ctx, rn, s)
+
+        def sp2(x, opt=opt):
+            if isinstance(x, ast.Name) and _root(fn, x) in opt:
+                return _poly(ctx, rn, opt[_root(fn, x)][1], sp2, stop=frozenset(posv))
+            return sp(x)
+
+        def poly(e, sp2=sp2):
+            return _poly(ctx, rn, e, sp2, stop=frozenset(posv))
+
+        facts = [p for p in _linear_facts(ctx, rn, s, poly) + [q for S, _E in opt.values() for q in _linear_facts(ctx, rn, S, poly)] if "<raw position>" in p.atoms()]
+        if any(p == want_fact for p in facts):
+            vs.append("ok")
+            notes.append("initial nonce used while pos < nonce_offset + 12")
+        elif not facts or all(p.atoms() <= want_fact.atoms() for p in facts):
+            vs.append("bad")
+            notes.append(f"initial nonce mixed in under {[f'{p} <= 0' for p in facts] or 'no bound on the position'}; required pos < nonce_offset + 12")
+        else:
+            vs.append("unknown")
+            notes.append(f"position bounds {[f'{p} <= 0' for p in facts]} are not over the position and the header length only")
+        # offset within the first word
+        if not isinstance(s, ast.Subscript) or not isinstance(s.slice, ast.Slice) or s.slice.step is not None:
+            vs.append("unknown")
+            notes.append(f"{src(s)} is not a slice")
+            continue
+        lo = poly(s.slice.lower) if s.slice.lower is not None else SymPoly.const(0)
+        v = _verdict(lo, POS - H)
+        if s.slice.upper is not None and v == "ok":
+            v = "unknown"
+        vs.append(v)
+        notes.append(f"offset within the first word = {lo}" + ("" if v == "ok" else "; required pos - (nonce_offset + 8)"))
+        par = fv.parent.get(id(s))
+        if isinstance(par, ast.BinOp) and isinstance(par.op, ast.Add) and par.left is s and isinstance(par.right, ast.Subscript) and isinstance(par.right.slice, ast.Slice):
+            o = par.right
+            lo2 = poly(o.slice.lower) if o.slice.lower is not None else SymPoly.const(0)
+            v2 = _verdict(lo2, FOUR - (POS - H)) if o.slice.upper is None and o.slice.step is None else "unknown"
+            vs.append(v2)
+            notes.append(f"remainder taken from the previous ciphertext word at {lo2}" + ("" if v2 == "ok" else "; required 4 - (pos - (nonce_offset + 8))"))
+    _emit(ctx, "R1", "CURSOR", rn, text, _worst(vs), "; ".join(dict.fromkeys(notes)), "; ".join(dict.fromkeys(notes)))
+
+
+# ============================================================================================== R2: read accounting
+class _Read:
+    """Facts about XorEncodedFile.read(): the underlying reads, and the *trackers* of what was consumed - a bytes
+    accumulator (`acc += w`, `acc = acc + w`, `acc.extend(w)`), a list of words (`acc.append(w)`, joined later), an in-memory
+    stream (`acc.write(w)`, `acc.getvalue()`) or a byte counter (`k += len(w)`), where w has the length of a chunk read from
+    the underlying file."""
+
+    def __init__(self, ctx):
+        self.ctx = ctx
+        self.f = f = ctx.repo.func(f"{CLS}.read")
+        self.fn = f.node
+        self.cfg = ctx.cfg(f)
+        self.fv = FuncView.of(f.node)
+        ps = params(f.node)
+        self.n = ps[1] if len(ps) > 1 else None
+        self.reads = _raw_calls(f, "read")
+        self.trk: Dict[str, dict] = {}
+        self.assume: Dict[str, bool] = {}
+        self.loose_seeks = True  # seeks of the underlying file that are not recognised give-backs may compensate unrecorded reads
+        self._find_trackers()
+
+    # -- length provenance
+    def chunk_reads(self, e, at, plain: bool = False, depth: int = 0) -> Optional[List[ast.Call]]:
+        """The reads of the underlying file whose result e holds at statement `at` (flow-sensitive: a chunk variable may be
+        fed by several read sites, e.g. a primed loop), looking through length-preserving wrappers (xor(data=..), bytes(..))
+        unless `plain`; None when e is not (only) such a chunk."""
+        if e is None or depth > 6:
+            return None
+        e = strip_cast(e)
+        if isinstance(e, ast.Call):
+            if any(e is r for r in self.reads):
+                return [e]
+            if plain:
+                return None
+            cal = self.ctx.rs.resolve_call(self.f, e)
+            if cal.kind == "func" and cal.func is not None and cal.fq == "utils.xor":
+                return self.chunk_reads(bind_args(e, cal.func.node).get("data"), at, plain, depth + 1)
+            if dotted(e.func) in ("bytes", "bytearray", "memoryview") and len(e.args) == 1 and not e.keywords:
+                return self.chunk_reads(e.args[0], at, plain, depth + 1)
+            return None
+        if isinstance(e, ast.Name) and e.id not in params(self.fn):
+            rd = reaching_defs(self.ctx, self.f, e.id, at)
+            if not rd or any(v is None for _s, v in rd):
+                return None
+            out: List[ast.Call] = []
+            for s, v in rd:
+                r = self.chunk_reads(v, s, plain, depth + 1)
+                if r is None:
+                    return None
+                out += [x for x in r if not any(x is y for y in out)]
+            return out
+        return None
+
+    def _find_trackers(self):
+        fn = self.fn
+
+        def classify(v, st):
+            r = self.chunk_reads(v, st)
+            if r is not None:
+                return "bytes", r
+            if isinstance(v, ast.Call) and dotted(v.func) == "len" and len(v.args) == 1 and not v.keywords:
+                r = self.chunk_reads(v.args[0], st)
+                if r is not None:
+                    return "count", r
+            return None
+
+        found: Dict[str, dict] = {}
+
+        def add(name, kind, st, reads, sign=1):
+            t = found.setdefault(name, {"kind": kind, "upd": [], "truncs": [], "valid": True, "sign": sign, "init": None})
+            if t["kind"] != kind or t["sign"] != sign:
+                t["valid"] = False
+            t["upd"].append((st, reads))
+
+        for st in statements(fn):
+            if isinstance(st, ast.AugAssign) and isinstance(st.op, (ast.Add, ast.Sub)) and isinstance(st.target, ast.Name):
+                k = classify(st.value, st)
+                if k and (isinstance(st.op, ast.Add) or k[0] == "count"):
+                    add(st.target.id, k[0], st, k[1], 1 if isinstance(st.op, ast.Add) else -1)
+            elif isinstance(st, ast.Assign) and len(st.targets) == 1 and isinstance(st.targets[0], ast.Name) and isinstance(st.value, ast.BinOp) \
+                    and isinstance(st.value.op, (ast.Add, ast.Sub)) and dotted(st.value.left) == st.targets[0].id:
+                k = classify(st.value.right, st)
+                if k and (isinstance(st.value.op, ast.Add) or k[0] == "count"):
+                    add(st.targets[0].id, k[0], st, k[1], 1 if isinstance(st.value.op, ast.Add) else -1)
+            elif isinstance(st, ast.Expr) and isinstance(st.value, ast.Call) and isinstance(st.value.func, ast.Attribute) and isinstance(st.value.func.value, ast.Name) \
+                    and st.value.func.attr in ("append", "extend", "write") and len(st.value.args) == 1 and self.chunk_reads(st.value.args[0], st) is not None:
+                add(st.value.func.value.id, {"append": "list", "extend": "bytes", "write": "stream"}[st.value.func.attr], st, self.chunk_reads(st.value.args[0], st))
+        for name, t in found.items():
+            if name in params(fn):
+                t["valid"] = False
+            upd = [s for s, _r in t["upd"]]
+            for s, v in assignments_to(fn, name):
+                if any(s is u for u in upd):
+                    continue
+                if v is None:
+                    t["valid"] = False
+                    continue
+                c = _const(self.ctx, None, v)
+                if t["kind"] == "count" and t["init"] is None and _poly(self.ctx, self.f, v, stop=frozenset({name})) is not None \
+                        and not any(isinstance(x, ast.Name) and x.id == name for x in ast.walk(v)):
+                    t["init"] = v  # a counter may start anywhere (0: bytes consumed, n: bytes still owed, ..)
+                    continue
+                if t["kind"] == "bytes" and ((isinstance(c, bytes) and c == b"") or (isinstance(v, ast.Call) and dotted(v.func) in ("bytes", "bytearray") and not v.args)):
+                    continue
+                if t["kind"] == "list" and ((isinstance(v, ast.List) and not v.elts) or (isinstance(v, ast.Call) and dotted(v.func) == "list" and not v.args)):
+                    continue
+                if t["kind"] == "stream" and isinstance(v, ast.Call) and (dotted(v.func) or "").split(".")[-1] == "BytesIO" and not v.args and not v.keywords:
+                    continue
+                if t["kind"] == "bytes" and isinstance(v, ast.Subscript) and isinstance(v.slice, ast.Slice) and dotted(v.value) == name:
+                    t["truncs"].append((s, v))
+                    continue
+                t["valid"] = False
+            if t["kind"] == "count" and t["init"] is None:
+                t["valid"] = False
+        # `del acc[k:]` cuts a mutable accumulator to its first k bytes: the same truncation as `acc = acc[:k]`
+        for st in statements(fn):
+            if isinstance(st, ast.Delete):
+                for tg in st.targets:
+                    if isinstance(tg, ast.Subscript) and isinstance(tg.value, ast.Name) and tg.value.id in found and found[tg.value.id]["kind"] == "bytes":
+                        t = found[tg.value.id]
+                        if isinstance(tg.slice, ast.Slice) and tg.slice.upper is None and tg.slice.step is None and tg.slice.lower is not None:
+                            cut = ast.Subscript(value=ast.Name(id=tg.value.id, ctx=ast.Load()), slice=ast.Slice(lower=None, upper=tg.slice.lower, step=None), ctx=ast.Load())
+                            t.setdefault("dels", []).append((st, ast.copy_location(cut, tg)))
+                        else:
+                            t["valid"] = False
+        self.trk = {k: t for k, t in found.items() if t["valid"]}
+
+    # -- exactness: every chunk that is read is recorded exactly once
+    def exactness(self, name, at=None) -> Tuple[str, str]:
+        """Does tracker `name` account for every byte consumed when control is at statement `at` (None: at any exit)?"""
+        cfg, fv = self.cfg, self.fv
+        t = self.trk[name]
+        handlers = [nd for nd, s in cfg.stmt.items() if isinstance(s, ast.ExceptHandler)]
+        atn = cfg.node(at) if at is not None and cfg.has(at) else None
+        res, why = "ok", "every chunk read from the underlying file is recorded exactly once"
+        for R in self.reads:
+            rst = fv.stmt_of(R)
+            if rst is None or not cfg.has(rst):
+                return "unknown", "an underlying read cannot be placed in the CFG"
+            Rs = cfg.node(rst)
+            Us = [cfg.node(u) for u, rs in t["upd"] if any(r is R for r in rs) and cfg.has(u)]
+            if not Us:
+                if atn is not None and not cfg.reaches(Rs, atn) and Rs != atn:
+                    continue  # this read cannot have happened when control is at `at` (another branch of read())
+                if not self.loose_seeks:
+                    return "bad", f"the bytes read by `{src(R)}` are recorded nowhere and never given back: they are consumed but not returned"
+                return "unknown", f"`{src(R)}` is not recorded in `{name}`"
+            cvars = [x.id for x in (rst.targets if isinstance(rst, ast.Assign) and rst.value is R else []) if isinstance(x, ast.Name)]
+            assume = {}
+            for c in cvars:
+                assume.update({c: True, f"len({c}) == 0": False, f"len({c}) != 0": True, f"len({c}) > 0": True, f"len({c}) >= 1": True, f"len({c}) < 1": False,
+                               f"{c} == b''": False, f"{c} != b''": True, f"{c} is None": False})
+            spec = specialise(cfg, assume)
+            ctests = [nd for nd, s in cfg.stmt.items() if isinstance(s, (ast.If, ast.While)) and tv_eval(s.test, assume) is None
+                      and any(isinstance(x, ast.Name) and x.id in cvars for x in ast.walk(s.test))]
+            # the other read sites that feed the same updates start a new chunk
+            sib = [cfg.node(fv.stmt_of(r2)) for u, rs in t["upd"] if any(r is R for r in rs) for r2 in rs if r2 is not R and cfg.has(fv.stmt_of(r2))]
+
+            def escapes(avoid):
+                return spec.reaches(Rs, EXIT, avoiding=avoid) or spec.reaches(Rs, Rs, avoiding=avoid) or any(spec.reaches(Rs, x, avoiding=avoid) for x in sib)
+
+            if escapes(Us + handlers):
+                if escapes(Us + handlers + ctests):
+                    return "bad", f"a chunk read by `{src(R)}` can be dropped without being recorded in `{name}` (bytes are consumed but not returned)"
+                res, why = "unknown", f"whether every non-empty chunk is recorded in `{name}` depends on a test of the chunk that is not understood"
+            for u in Us:
+                if any(spec.reaches(u, u2, avoiding=[Rs] + sib) for u2 in Us):
+                    return "bad", f"a chunk can be recorded twice in `{name}`"
+        return res, why
+
+    # -- values
+    def truncated_by(self, name, at) -> List[Tuple[ast.AST, ast.AST]]:
+        t = self.trk.get(name)
+        if not t or not (t["truncs"] or t.get("dels")):
+            return []
+        rd = reaching_defs(self.ctx, self.f, name, at)
+        out = [(ts, tv) for ts, tv in t["truncs"] if any(s is ts for s, _v in rd)]
+        ast_ = at if isinstance(at, ast.stmt) else self.fv.stmt_of(at)
+        for ds, dv in t.get("dels", []):
+            if ast_ is not None and self.cfg.has(ds) and self.cfg.has(ast_) and self.cfg.reaches(self.cfg.node(ds), self.cfg.node(ast_)):
+                out.append((ds, dv))
+        return out
+
+    def always_truncated(self, name, at) -> bool:
+        """every path to `at` passes an in-place truncation (`del acc[k:]`) of the accumulator"""
+        t = self.trk.get(name) or {}
+        ast_ = at if isinstance(at, ast.stmt) else self.fv.stmt_of(at)
+        dels = [self.cfg.node(ds) for ds, _dv in t.get("dels", []) if self.cfg.has(ds)]
+        return bool(dels) and ast_ is not None and self.cfg.has(ast_) and not self.cfg.reaches(ENTRY, self.cfg.node(ast_), avoiding=dels)
+
+    def full(self, e, at, depth=0) -> Optional[str]:
+        """Name of the tracker whose complete contents e evaluates to at statement `at` (None if not such a value)."""
+        e = strip_cast(e)
+        if depth > 5 or e is None:
+            return None
+        if isinstance(e, ast.Name):
+            t = self.trk.get(e.id)
+            if t is not None:
+                if t["kind"] == "bytes" and not self.truncated_by(e.id, at):
+                    return e.id
+                return None
+            rd = reaching_defs(self.ctx, self.f, e.id, at)
+            if not rd or any(v is None for _s, v in rd):
+                return None
+            names = set()
+            for s, v in rd:
+                nm = self.full(v, s, depth + 1)
+                if nm is None:
+                    return None
+                # the copy must be taken after the last update
+                if any(self.cfg.has(s) and self.cfg.reaches(self.cfg.node(s), self.cfg.node(u)) for u, _r in self.trk[nm]["upd"] if self.cfg.has(u)):
+                    return None
+                names.add(nm)
+            return names.pop() if len(names) == 1 else None
+        if isinstance(e, ast.Call):
+            if dotted(e.func) in ("bytes", "bytearray") and len(e.args) == 1 and not e.keywords:
+                return self.full(e.args[0], at, depth + 1)
+            if isinstance(e.func, ast.Attribute) and e.func.attr == "getvalue" and not e.args and isinstance(e.func.value, ast.Name):
+                t = self.trk.get(e.func.value.id)
+                if t is not None and t["kind"] == "stream":
+                    return e.func.value.id
+            if isinstance(e.func, ast.Attribute) and e.func.attr == "join" and len(e.args) == 1 and isinstance(e.args[0], ast.Name):
+                sep = _const(self.ctx, self.f, e.func.value)
+                t = self.trk.get(e.args[0].id)
+                if isinstance(sep, bytes) and sep == b"" and t is not None and t["kind"] == "list":
+                    return e.args[0].id
+        return None
+
+    def tell_poly(self, call) -> Optional[SymPoly]:
+        """Raw position reported by a tell() of the underlying file, in terms of the position when read() is done reading:
+        taken before any chunk can have been read it is <raw position> - <bytes consumed>, taken after the last read it is
+        <raw position>."""
+        st = self.fv.stmt_of(call)
+        if st is None or not self.cfg.has(st):
+            return None
+        X = self.cfg.node(st)
+        Rs = [self.cfg.node(self.fv.stmt_of(r)) for r in self.reads if self.cfg.has(self.fv.stmt_of(r))]
+        if all(not self.cfg.reaches(R, X) and R != X for R in Rs):
+            return POS - CONSUMED
+        if all(not self.cfg.reaches(X, R) and R != X for R in Rs):
+            return POS
+        return None
+
+    def special(self, at, used: set):
+        def sp(x):
+            x = strip_cast(x)
+            if isinstance(x, ast.IfExp) and self.assume:
+                # `want = n if n > 0 else None`: decided under the assumptions the caller reasons under (n > 0 ..)
+                t = tv_eval(x.test, self.assume, frozenset({self.n}) if self.n else frozenset())
+                tt = x.test
+                if t is None and isinstance(tt, ast.Compare) and len(tt.ops) == 1 and isinstance(tt.ops[0], (ast.Is, ast.IsNot)) and isinstance(tt.comparators[0], ast.Constant) \
+                        and tt.comparators[0].value is None and not isinstance(strip_cast(tt.left), ast.Constant) and _poly(self.ctx, self.f, tt.left, sp) is not None \
+                        and _poly(self.ctx, self.f, tt.left, sp).atoms() <= ({self.n} | CONSUMED.atoms() | POS.atoms()):
+                    t = isinstance(tt.ops[0], ast.IsNot)  # the operand evaluates to a number under the assumptions: it is not None
+                if t is not None:
+                    return _poly(self.ctx, self.f, x.body if t else x.orelse, sp)
+            if isinstance(x, ast.Call) and isinstance(x.func, ast.Attribute) and x.func.attr == "tell" and not x.args and _is_raw(self.fn, x.func.value):
+                used.add("<tell>")
+                return self.tell_poly(x)
+            if isinstance(x, ast.Call) and dotted(x.func) == "len" and len(x.args) == 1:
+                nm = self.full(x.args[0], at)
+                if nm is not None:
+                    used.add(nm)
+                    return CONSUMED
+            if isinstance(x, ast.Name) and x.id in self.trk and self.trk[x.id]["kind"] == "count":
+                t = self.trk[x.id]
+                p0 = _poly(self.ctx, self.f, t["init"], stop=frozenset({x.id}))
+                if p0 is not None:
+                    used.add(x.id)
+                    return p0 + (CONSUMED if t["sign"] > 0 else -CONSUMED)
+            if isinstance(x, ast.Call) and isinstance(x.func, ast.Attribute) and x.func.attr == "tell" and not x.args and isinstance(x.func.value, ast.Name) \
+                    and x.func.value.id in self.trk and self.trk[x.func.value.id]["kind"] == "stream":
+                used.add(x.func.value.id)  # an in-memory stream that is only written to: its position is its length
+                return CONSUMED
+            return None
+
+        return sp
 
 
 def r2(ctx):
-    f = ctx.repo.func("xordecode.XorEncodedFile.read")
-    cfg = ctx.cfg(f)
-    fv = FuncView.of(f.node)
-    n = params(f.node)[1]
-    reads = [c for c in fn_calls(f.node) if dotted(c.func) == "self.fh.read"]
+    R = _Read(ctx)
+    f, cfg, fv, n = R.f, R.cfg, R.fv, R.n
+    if n is None or not R.reads:
+        ctx.undecided("R2", "CURSOR", f, "read(0) consumes nothing", "read(n) does not read from the underlying file in a way that can be located")
+        ctx.undecided("R2", "CURSOR", f, "accumulator", "read(n) does not read from the underlying file in a way that can be located")
+        return
+    N = SymPoly.atom(n)
     # (a) n == 0 consumes nothing
-    spec0 = specialise(cfg, {f"{n} == 0": True, f"{n} > 0": False, f"{n} != 0": False, n: False, f"{n} == -1": False, f"{n} < 0": False, f"{n} is None": False})
-    reach = [c for c in reads if spec0.reaches(ENTRY, cfg.node(fv.stmt_of(c)))]
-    nonce_calls = [c for c in fn_calls(f.node) if dotted(c.func) == "self.read_nonce" and spec0.reaches(ENTRY, cfg.node(fv.stmt_of(c)))]
+    spec0 = specialise(cfg, {f"{n} == 0": True, f"{n} > 0": False, f"{n} != 0": False, n: False, f"{n} == -1": False, f"{n} < 0": False, f"{n} is None": False,
+                             f"{n} >= 0": True, f"{n} <= 0": True, f"{n} >= 1": False, f"{n} < 1": True}, ints=frozenset({n}))
+    reach = [c for c in R.reads if cfg.has(fv.stmt_of(c)) and spec0.reaches(ENTRY, cfg.node(fv.stmt_of(c)))]
     ctx.ob("R2", "CURSOR", f, "read(0) consumes nothing", not reach, "with n == 0 no underlying read is reachable" if not reach else
            f"with n == 0 the underlying file is still read ({[src(c) for c in reach]}): read(0) drains the file and returns b''", f.node)
-    # (b) every return gives back what it does not return
-    acc = None
-    for st in statements(f.node):
-        if isinstance(st, ast.AugAssign) and isinstance(st.op, ast.Add) and isinstance(st.value, ast.Call) and ctx.rs.resolve_call(f, st.value).fq == "utils.xor":
-            acc = dotted(st.target)
-    if acc is None:
-        ctx.ob("R2", "CURSOR", f, "accumulator", False, "no `data += xor(chunk, nonce)` accumulator found")
+    # (b) what was consumed is tracked
+    if not R.trk:
+        ctx.undecided("R2", "CURSOR", f, "accumulator", "cannot locate how the decoded words are collected (no bytes accumulator, joined word list or byte counter fed by the chunks read)")
         return
-    givebacks = []
-    for c in fn_calls(f.node):
-        if dotted(c.func) == "self.fh.seek" and len(c.args) == 2 and (dotted(c.args[1]) or "").endswith("SEEK_CUR"):
-            e = sympoly(c.args[0])
-            want = SymPoly.atom(n) - SymPoly.atom(f"len({acc})")
-            if e == want:
-                givebacks.append(c)
-    for r in cfg.return_stmts():
-        v = r.value
-        vo = v
-        trunc = None
-        # follow `data = data[:n]` rebinding
-        if isinstance(v, ast.Subscript) and isinstance(v.slice, ast.Slice) and dotted(v.value) == acc:
-            trunc = v
-            tr_node = cfg.node(r)
-        elif dotted(v) == acc:
-            for st, val in assignments_to(f.node, acc):
-                if isinstance(val, ast.Subscript) and isinstance(val.slice, ast.Slice) and dotted(val.value) == acc and cfg.reaches(cfg.node(st), cfg.node(r)):
-                    trunc = val
-                    tr_node = cfg.node(st)
-        if isinstance(_c(v), bytes) and len(_c(v)) == 0:
-            ctx.ob("R2", "CURSOR", f, "return " + src(v), True, "returns nothing", r, nontrivial=False)
+    uses: List[Tuple[str, ast.AST]] = []  # (tracker, statement at which a verdict relies on it)
+    # give-back and truncation only matter for n > 0: conditional expressions on n are read under that assumption
+    assume = {f"{n} > 0": True, f"{n} >= 0": True, f"{n} >= 1": True, f"{n} != 0": True, n: True, f"{n} == 0": False, f"{n} < 0": False, f"{n} <= 0": False,
+              f"{n} < 1": False, f"{n} is None": False, f"{n} == -1": False}
+    R.assume = assume
+    # give-back seeks: relative seek of n - <consumed>
+    givebacks, other_seeks = [], []
+    for c in _raw_calls(f, "seek"):
+        off, wh = _seek_args(c)
+        w = 0 if wh is None else _const(ctx, f, wh)
+        if off is None or not cfg.has(fv.stmt_of(c)):
             continue
-        if trunc is None:
-            ok = dotted(v) == acc
-            ctx.ob("R2", "CURSOR", f, "return " + src(v), ok, "returns everything it consumed" if ok else f"returns {src(v)}: not the accumulated data", r)
+        u: set = set()
+        p = _poly(ctx, f, off, R.special(c, u))
+        if (w == 1 and p == N - CONSUMED) or (w == 0 and p == POS + N - CONSUMED):
+            givebacks.append(c)
+            uses += [(nm, fv.stmt_of(c)) for nm in u - {"<tell>"}]
+        else:
+            other_seeks.append((c, p, w, u))
+    gnodes = [cfg.node(fv.stmt_of(g)) for g in givebacks]
+    R.loose_seeks = bool(other_seeks)
+    # the give-back matters on the paths where something is cut: n > 0 and more than n bytes consumed.  Tests made after
+    # the last read that say so (in any spelling) are decided before asking for dominance.
+    rnodes = [cfg.node(fv.stmt_of(r)) for r in R.reads if cfg.has(fv.stmt_of(r))]
+    surplus_keys: Dict[str, bool] = {}
+    for nd, st in cfg.stmt.items():
+        if not isinstance(st, (ast.If, ast.While)) or any(cfg.reaches(nd, rn) for rn in rnodes):
             continue
-        # truncated: a give-back seek of n - len(data) must precede the truncation on every path where something is cut
-        upper = trunc.slice.upper
-        ok = bool(givebacks) and dotted(upper) == n and trunc.slice.lower is None
-        if ok:
-            gnodes = [cfg.node(fv.stmt_of(g)) for g in givebacks]
-            # every path from entry to the truncation on which len(data) may exceed n passes a give-back:
-            # we require the give-back to dominate the truncation, or both to sit under the same `len(data) > n` guard
-            same_guard = any(cfg.dominates(gn, tr_node) for gn in gnodes)
-            ok = same_guard
-        ctx.ob("R2", "CURSOR", f, "return " + src(v) + " [truncated]", ok,
-               "the truncation to n bytes is preceded by a relative seek of n - len(data): the surplus of the last 4-byte word is given back" if ok else
-               f"returns {src(trunc)} after consuming whole 4-byte words without giving the surplus back: read(3) leaves tell() == 4 and the next read skips a byte", r)
-    # negative / None n: read to the end and return everything (no truncation with a negative bound)
+        for cmp_ in [x for x in ast.walk(st.test) if isinstance(x, ast.Compare) and len(x.ops) == 1]:
+            a, b = _poly(ctx, f, cmp_.left, R.special(st, set())), _poly(ctx, f, cmp_.comparators[0], R.special(st, set()))
+            if a is None or b is None:
+                continue
+            d, op = a - b, cmp_.ops[0]
+            if d == N - CONSUMED:
+                d, op = -d, {ast.Lt: ast.Gt, ast.LtE: ast.GtE, ast.Gt: ast.Lt, ast.GtE: ast.LtE}.get(type(op), type(op))()
+            if d == CONSUMED - N and type(op) in (ast.Gt, ast.GtE, ast.NotEq, ast.Lt, ast.LtE, ast.Eq):
+                surplus_keys[src(cmp_)] = isinstance(op, (ast.Gt, ast.GtE, ast.NotEq))
+    cut = specialise(cfg, {**assume, **surplus_keys}, ints=frozenset({n}))
+    not_positive = specialise(cfg, {f"{n} > 0": False, f"{n} >= 1": False, f"{n} <= 0": True, f"{n} < 1": True})
+    no_surplus = specialise(cfg, {k: not v for k, v in surplus_keys.items()})
+
+    def only_when_cut(gn) -> bool:
+        """the node is executed only with n > 0 and more than n bytes consumed (so `cut` describes what follows it)"""
+        return bool(surplus_keys) and not not_positive.reaches(ENTRY, gn) and not no_surplus.reaches(ENTRY, gn)
+
+    def no_giveback(tn) -> Tuple[str, str]:
+        """verdict for a truncation that no recognised give-back dominates"""
+        cands = [(c, p, w, u) for c, p, w, u in other_seeks if cfg.dominates(cfg.node(fv.stmt_of(c)), tn) or cut.dominates(cfg.node(fv.stmt_of(c)), tn)]
+        if not cands:
+            return "bad", ""
+        vs = []
+        for c, p, w, u in cands:
+            if p is not None and p.atoms() <= (N.atoms() | CONSUMED.atoms() | POS.atoms()) and w in (0, 1):
+                vs.append("bad")  # written in the rule's vocabulary and not n - <consumed>
+            elif not u:
+                vs.append("bad")  # independent of how much was consumed (a short last chunk breaks it)
+            else:
+                vs.append("unknown")
+        c, p, w, u = cands[0]
+        return ("bad" if all(v == "bad" for v in vs) else "unknown"), f" (`{src(c)}` moves by {p if p is not None else src(_seek_args(c)[0])}: not n - <bytes consumed>)"
+
+    def classify(e, at, depth=0):
+        e = strip_cast(e)
+        if isinstance(e, ast.Constant) and isinstance(e.value, bytes) and not e.value:
+            return [("empty", None, at)]
+        if isinstance(e, ast.Name) and e.id in R.trk and R.trk[e.id]["kind"] == "bytes":
+            rd = reaching_defs(ctx, f, e.id, at)
+            out = []
+            trs = R.truncated_by(e.id, at)
+            for ts, tv in trs:
+                out.append(("trunc", tv, ts))
+            ntr = len([1 for ts, _tv in trs if any(s is ts for s, _v in rd)])
+            if (ntr < len(rd) or not rd) and not R.always_truncated(e.id, at):
+                uses.append((e.id, at))
+                out.append(("full", None, at))
+            return out
+        nm = R.full(e, at)
+        if nm is not None:
+            uses.append((nm, at))
+            return [("full", None, at)]
+        if isinstance(e, ast.Subscript) and isinstance(e.slice, ast.Slice):
+            nm = R.full(e.value, at)
+            if nm is not None:
+                uses.append((nm, at))
+                return [("trunc", e, at)]
+        if isinstance(e, ast.Call) and dotted(e.func) in ("bytes", "bytearray") and len(e.args) == 1 and not e.keywords and depth < 4:
+            return classify(e.args[0], at, depth + 1)
+        if isinstance(e, ast.Name) and depth < 4 and e.id not in params(f.node):
+            rd = reaching_defs(ctx, f, e.id, at)
+            if rd and all(v is not None for _s, v in rd):
+                out = []
+                for s, v in rd:
+                    out.extend(classify(v, s, depth + 1))
+                return out
+        return [("unknown", None, at)]
+
+    trunc_nodes = []
+    results = []
     for r in cfg.return_stmts():
-        pass
+        if r.value is None:
+            results.append((r, [("unknown", None, r)]))
+            continue
+        parts = classify(r.value, r)
+        results.append((r, parts))
+        trunc_nodes += [cfg.node(at) for kind, _sl, at in parts if kind == "trunc" and cfg.has(at)]
+    # exactness of every tracker the verdicts rely on
+    evs = {}
+    for nm, at in (uses or [(nm, None) for nm in R.trk]):
+        evs.setdefault((nm, id(at)), R.exactness(nm, at))
+    ev = _worst(v for v, _w in evs.values())
+    pick = [w for v, w in evs.values() if v == ev]
+    _emit(ctx, "R2", "CURSOR", f, "accumulator", ev, f"consumed bytes tracked by {sorted({k[0] for k in evs})}: {pick[0]}", pick[0])
+    for r, parts in results:
+        vs, notes = [], []
+        truncated = False
+        for kind, sl, at in parts:
+            if kind == "empty":
+                vs.append("ok")
+                notes.append("returns nothing")
+            elif kind == "full":
+                vs.append("ok")
+                notes.append("returns everything it consumed")
+            elif kind == "unknown":
+                vs.append("unknown")
+                notes.append(f"cannot relate `{src(r.value)}` to the bytes consumed")
+            else:
+                truncated = True
+                up = _poly(ctx, f, sl.slice.upper, R.special(at, set())) if sl.slice.upper is not None else None
+                if up is not None and "<bytes consumed>" in up.atoms():
+                    up = _poly(ctx, f, sl.slice.upper)
+                lo = _const(ctx, f, sl.slice.lower) if sl.slice.lower is not None else 0
+                shape = sl.slice.step is None and lo == 0 and up == N
+                if not shape:
+                    vs.append("bad" if (up is None or up.atoms() <= {n}) else "unknown")
+                    notes.append(f"returns {src(sl)}: not the first n bytes of what was consumed")
+                    continue
+                tn = cfg.node(at)
+                ok = any(cfg.dominates(g, tn) or cut.dominates(g, tn) for g in gnodes)
+                vg, extra = ("ok", "") if ok else no_giveback(tn)
+                vs.append(vg)
+                notes.append("the truncation to n bytes is preceded by a relative seek of n - <bytes consumed>: the surplus of the last 4-byte word is given back" if ok else
+                             f"returns {src(sl)} after consuming whole 4-byte words without giving the surplus back" + extra
+                             + ": read(3) leaves tell() == 4 and the next read skips a byte")
+        v = _worst(vs)
+        if all(k == "empty" for k, _s, _a in parts):
+            ctx.ob("R2", "CURSOR", f, "return " + src(r.value), True, "returns nothing", r, nontrivial=False)
+            continue
+        pick = [w for x, w in zip(vs, notes) if x == v]
+        _emit(ctx, "R2", "CURSOR", f, "return " + src(r.value) + (" [truncated]" if truncated else ""), v, "; ".join(dict.fromkeys(notes)), "; ".join(dict.fromkeys(pick)), r)
+    # a give-back is only correct together with the truncation
+    for g, gn in zip(givebacks, gnodes):
+        ok = bool(trunc_nodes) and (cfg.all_paths_pass(gn, EXIT, trunc_nodes) or (only_when_cut(gn) and cut.all_paths_pass(gn, EXIT, trunc_nodes)))
+        ctx.ob("R2", "CURSOR", f, "give-back is followed by the truncation", ok,
+               "after giving back n - <bytes consumed> the result is cut to n bytes" if ok else
+               "bytes are given back to the underlying file but still returned: the position advances by less than what is returned", g)
 
 
+# ============================================================================================== R3: rolling key
 def r3(ctx):
-    f = ctx.repo.func("xordecode.XorEncodedFile.read")
-    loop = [s for s in statements(f.node) if isinstance(s, ast.While)]
-    if not loop:
-        ctx.ob("R3", "AGREE", f, "decode loop", False, "no while loop in read()")
+    R = _Read(ctx)
+    f, cfg, fv, fn = R.f, R.cfg, R.fv, R.fn
+    loops = []
+    for c in R.reads:
+        lp = fv.enclosing(c, (ast.While, ast.For))
+        if lp is not None and not any(lp is x for x in loops):
+            loops.append(lp)
+    xors = [c for lp in loops for c in ast.walk(lp) if isinstance(c, ast.Call) and ctx.rs.resolve_call(f, c).fq == "utils.xor"]
+    if not loops or not xors:
+        for text, kind in (("xor(chunk, nonce)", "AGREE"), ("nonce = chunk", "AGREE"), ("nonce = self.read_nonce()", "AGREE")):
+            ctx.undecided("R3", kind, f, text, "read() does not decode word by word in a loop over reads of the underlying file: the decode step cannot be located")
+    else:
+        vs1, n1, vs2, n2, vs3, n3 = [], [], [], [], [], []
+        for x in xors:
+            callee = ctx.rs.resolve_call(f, x).func
+            b = bind_args(x, callee.node) if callee is not None else {}
+            data, key = b.get("data"), b.get("key")
+            xs = fv.stmt_of(x)
+            rds = R.chunk_reads(data, xs, plain=True) if data is not None and xs is not None and cfg.has(xs) else None
+            if not rds:
+                vs1.append("bad" if data is not None else "unknown")
+                n1.append(f"decode step {src(x)}: the data operand is not a word read from the underlying file")
+                continue
+            ks = [_const(ctx, f, rd.args[0]) if rd.args else None for rd in rds]
+            vs1.append("ok" if all(k == 4 for k in ks) else "bad")
+            n1.append("each 4-byte ciphertext word is XORed with the current nonce" if all(k == 4 for k in ks) else f"decode step is not xor(<4-byte read>, nonce): reads {[src(rd) for rd in rds]}")
+            key = strip_cast(key) if key is not None else None
+            if not isinstance(key, ast.Name) or key.id in params(fn):
+                vs2.append("unknown")
+                n2.append(f"the key operand `{src(key)}` is not a local whose definitions can be followed")
+                vs3.append("unknown")
+                n3.append(n2[-1])
+                continue
+            lp = fv.enclosing(x, (ast.While, ast.For))
+            rss = [fv.stmt_of(rd) for rd in rds]
+            if lp is None or any(r is None or not cfg.has(r) for r in rss):
+                vs2.append("unknown")
+                n2.append("the decode step cannot be placed in a loop over reads of the underlying file")
+                vs3.append("unknown")
+                n3.append(n2[-1])
+                continue
+            inside = {id(s) for s in ast.walk(lp)}
+            defs = reaching_defs(ctx, f, key.id, x)
+            inl = [(s, v) for s, v in defs if id(s) in inside]
+            first = [(s, v) for s, v in defs if id(s) not in inside]
+            # chain: inside the loop the key becomes the ciphertext word that was just decoded: after its use, before the
+            # next word is read, on every iteration
+            if not inl:
+                vs2.append("bad")
+                n2.append("the key is never updated inside the decode loop (must become the previous ciphertext word)")
+            else:
+                def same_word(s, v):
+                    if v is None:
+                        return False
+                    r = R.chunk_reads(v, s if isinstance(s, ast.stmt) else fv.stmt_of(s), plain=True)
+                    return r is not None and len(r) == len(rds) and all(any(a is b_ for b_ in rds) for a in r)
+
+                wrong = [v for s, v in inl if not same_word(s, v)]
+                Xs, Cs = cfg.node(xs), [cfg.node(r) for r in rss]
+                Ds = [cfg.node(s if isinstance(s, ast.stmt) else fv.stmt_of(s)) for s, v in inl]
+                always = cfg.all_paths_pass(Xs, Xs, Ds)
+                after_use = all(cfg.all_paths_pass(c, d, [Xs]) for c in Cs for d in Ds) and Xs not in Cs
+                fresh = all(cfg.all_paths_pass(d, Xs, Cs) for d in Ds)
+                if wrong:
+                    vs2.append("bad")
+                    n2.append(f"rolling key update is {[src(v) for v in wrong]} (must be the ciphertext word read from the file, after the xor)")
+                elif not (always and fresh and after_use):
+                    vs2.append("bad")
+                    n2.append(f"rolling key update is {[src(v) for s, v in inl]} but updated-on-every-iteration={always}, set-after-use={after_use and fresh}")
+                else:
+                    vs2.append("ok")
+                    n2.append("the next nonce is the previous CIPHERTEXT word, set after it was used")
+            # first key
+            if not first:
+                vs3.append("bad")
+                n3.append("no initial nonce reaches the first decode step")
+            else:
+                good = [v is not None and isinstance(origin(fn, v), ast.Call) and ctx.rs.resolve_call(f, origin(fn, v)).fq == f"{CLS}.read_nonce" for s, v in first]
+                vs3.append("ok" if all(good) else "bad")
+                n3.append("the first nonce comes from the 4 bytes before the current position" if all(good) else f"initial nonce is {[src(v) for s, v in first]}, not read_nonce()")
+        for text, vs, ns in (("xor(chunk, nonce)", vs1, n1), ("nonce = chunk", vs2, n2), ("nonce = self.read_nonce()", vs3, n3)):
+            if not vs:
+                ctx.undecided("R3", "AGREE", f, text, "the decode step was not located")
+                continue
+            v = _worst(vs)
+            pick = [w for a, w in zip(vs, ns) if a == v]
+            _emit(ctx, "R3", "AGREE", f, text, v, pick[0], pick[0])
+    _r3_read_nonce(ctx)
+
+
+def _r3_read_nonce(ctx):
+    rn = ctx.repo.func(f"{CLS}.read_nonce")
+    fn = rn.node
+    uses = [n for n in body_walk(fn) if dotted(n) == "self.initial_nonce"]
+    posv = {st.targets[0].id for st in statements(fn) if isinstance(st, ast.Assign) and len(st.targets) == 1 and isinstance(st.targets[0], ast.Name)
+            and _raw_tell_special(rn)(strip_cast(st.value)) is not None}
+    tell_sp = _raw_tell_special(rn)
+
+    def sp(x):
+        if isinstance(x, ast.Name) and x.id in posv:
+            return POS
+        return tell_sp(x)
+
+    fv = FuncView.of(fn)
+    calls = [c for c in fn_calls(fn) if fv.enclosing(c, (ast.ExceptHandler,)) is None]
+    in_handler = [c for c in fn_calls(fn) if fv.enclosing(c, (ast.ExceptHandler,)) is not None and isinstance(c.func, ast.Attribute) and _is_raw(fn, c.func.value) and c.func.attr in ("seek", "read")]
+    pos, spans, problem = _simulate(ctx, rn, calls, POS, lambda e: _poly(ctx, rn, e, sp, stop=frozenset(posv)))
+    t1, t2 = "previous ciphertext word / initial nonce", "net cursor movement"
+    if problem is not None or in_handler or not spans:
+        why = problem or ("the underlying file is also moved in an exception handler" if in_handler else "read_nonce does not read from the underlying file")
+        ctx.undecided("R3", "AGREE", rn, t1, why)
+        ctx.undecided("R3", "CURSOR", rn, t2, why)
         return
-    w = loop[0]
-    xors = [c for c in ast.walk(w) if isinstance(c, ast.Call) and ctx.rs.resolve_call(f, c).fq == "utils.xor"]
-    ok = len(xors) == 1 and len(xors[0].args) == 2 and all(isinstance(a, ast.Name) for a in xors[0].args)
-    CH, NO = (xors[0].args[0].id, xors[0].args[1].id) if ok else ("chunk", "nonce")
-    ch = [v for st, v in assignments_to(f.node, CH)]
-    ok = ok and len(ch) == 1 and src(ch[0]) == "self.fh.read(4)"
-    ctx.ob("R3", "AGREE", f, "xor(chunk, nonce)", ok, "each 4-byte ciphertext word is XORed with the current nonce" if ok else "decode step is not xor(<4-byte read>, nonce)")
-    nd = [(st, v) for st, v in assignments_to(f.node, NO)]
-    inloop = [(st, v) for st, v in nd if any(st is x for x in ast.walk(w))]
-    first = [(st, v) for st, v in nd if not any(st is x for x in ast.walk(w))]
-    chain = len(inloop) == 1 and dotted(inloop[0][1]) == CH
-    cfg = ctx.cfg(f)
-    fv = FuncView.of(f.node)
-    after = chain and xors and cfg.reaches(cfg.node(fv.stmt_of(xors[0])), cfg.node(inloop[0][0]), avoiding=[cfg.node(w)])
-    ctx.ob("R3", "AGREE", f, "nonce = chunk", bool(chain and after), "the next nonce is the previous CIPHERTEXT word, set after it was used" if chain and after else
-           f"rolling key update is {[src(v) for st, v in inloop]} (must be the ciphertext word `chunk`, after the xor)")
-    ok = len(first) == 1 and isinstance(first[0][1], ast.Call) and dotted(first[0][1].func) == "self.read_nonce"
-    ctx.ob("R3", "AGREE", f, "nonce = self.read_nonce()", ok, "the first nonce comes from the 4 bytes before the current position" if ok else "initial nonce is not read_nonce()")
-    rn = ctx.repo.func("xordecode.XorEncodedFile.read_nonce")
-    uses = [n for n in body_walk(rn.node) if dotted(n) == "self.initial_nonce"]
-    back = [c for c in fn_calls(rn.node) if dotted(c.func) == "self.fh.seek" and _c(c.args[0]) == -4]
-    rd = [c for c in fn_calls(rn.node) if dotted(c.func) == "self.fh.read" and _c(c.args[0]) == 4]
-    ctx.ob("R3", "AGREE", rn, "previous ciphertext word / initial nonce", bool(uses) and len(back) == 1 and len(rd) == 1,
-           f"reads the 4 bytes before the position (seek -4 / read 4)={len(back) == 1 and len(rd) == 1}; uses initial_nonce in the first word={bool(uses)}")
-    # position restored: seek(-4) + read(4) is net zero
-    ctx.ob("R3", "CURSOR", rn, "net cursor movement", len(back) == len(rd), "read_nonce leaves the cursor where it was")
+    prev = [s for s in spans.values() if s[0] == POS - SymPoly.const(4) and s[1] == 4]
+    located = all(s[0].atoms() <= POS.atoms() for s in spans.values())
+    v = "ok" if prev and uses else ("bad" if located else "unknown")
+    _emit(ctx, "R3", "AGREE", rn, t1, v,
+          "reads the 4 bytes before the position; uses initial_nonce in the first word",
+          f"reads {[f'raw[{s[0]} : +{s[1]}]' for s in spans.values()]}; required the 4 bytes before the position={bool(prev)}; uses initial_nonce in the first word={bool(uses)}")
+    _emit(ctx, "R3", "CURSOR", rn, t2, _verdict(pos, POS), "read_nonce leaves the cursor where it was", f"read_nonce leaves the cursor at {pos}; required: where it was")
+
+
+# ============================================================================================== R4: detection
+def _resolves_to(ctx, f, e, fq: str) -> bool:
+    if not isinstance(e, ast.Call):
+        return False
+    cal = ctx.rs.resolve_call(f, e)
+    return cal.fq == fq or (cal.func is not None and cal.func.fq == fq)
+
+
+_KNOWN = ("xordecode.iter_nonce_offsets", "utils.iter_find_needle", "pe.find_mz_offset")
+
+
+def _helper_of(ctx, g, e):
+    """The package function a call resolves to when it is a helper of this module that the normaliser did not inline."""
+    if not isinstance(e, ast.Call):
+        return None
+    cal = ctx.rs.resolve_call(g, e)
+    if cal.kind == "func" and cal.func is not None and cal.func.module.name == "xordecode" and cal.func.fq not in _KNOWN and cal.func.fq != g.fq:
+        return cal.func
+    return None
+
+
+def _helpers(ctx, f, depth: int = 2) -> list:
+    out = []
+
+    def go(g, d):
+        for c in fn_calls(g.node):
+            h = _helper_of(ctx, g, c)
+            if h is not None and h.fq != f.fq and not any(h.fq == x.fq for x in out):
+                out.append(h)
+                if d > 1:
+                    go(h, d - 1)
+
+    go(f, depth)
+    return out
+
+
+def _constructs(ctx, g, c, depth: int = 0) -> bool:
+    cal = ctx.rs.resolve_call(g, c)
+    if cal.kind == "class" and cal.fq == CLS:
+        return True
+    h = _helper_of(ctx, g, c)
+    return h is not None and depth < 2 and any(_constructs(ctx, h, c2, depth + 1) for c2 in fn_calls(h.node))
+
+
+def _validated_return(ctx, g, r, depth: int = 0) -> Tuple[str, str]:
+    """Verdict for `return <view>` in function g: every value that can be returned is a freshly built XorEncodedFile that
+    passed `find_mz_offset(<it>) is not None` and was rewound - the value is followed through copies and joins (a `None`
+    alternative must be excluded by a None test), and through helpers that return such a view or None."""
+    fn, cfg, fv = g.node, ctx.cfg(g), FuncView.of(g.node)
+    name0 = _root(fn, r.value)
+    if name0 is None or "." in name0:
+        return "unknown", "the returned value is not a local candidate"
+
+    def is_(e, nm):
+        return e is not None and _root(fn, e) == nm
+
+    def nonnull(t, pol, nm):
+        if is_(t, nm):
+            return pol
+        if isinstance(t, ast.Compare) and len(t.ops) == 1 and is_(t.left, nm) and isinstance(t.comparators[0], ast.Constant) and t.comparators[0].value is None:
+            return isinstance(t.ops[0], (ast.IsNot, ast.NotEq)) == pol
+        return False
+
+    def validates(t, pol, nm):
+        """True: holds only if find_mz_offset(<candidate>) is not None; False: a find_mz_offset test of another kind"""
+        if not (isinstance(t, ast.Compare) and len(t.ops) == 1):
+            e = origin(fn, strip_cast(t))
+            if _resolves_to(ctx, g, e, "pe.find_mz_offset") and e.args and is_(e.args[0], nm):
+                return False  # truthiness: offset 0 (the normal case) is falsy
+            return None
+        l, op, rr = origin(fn, t.left), t.ops[0], t.comparators[0]
+        if not (_resolves_to(ctx, g, l, "pe.find_mz_offset") and l.args and is_(l.args[0], nm)):
+            return None
+        if isinstance(rr, ast.Constant) and rr.value is None and isinstance(op, (ast.Is, ast.IsNot, ast.Eq, ast.NotEq)):
+            return isinstance(op, (ast.IsNot, ast.NotEq)) == pol
+        return False
+
+    conds_cache: Dict[int, list] = {}
+
+    def conds(pt):
+        if id(pt) not in conds_cache:
+            conds_cache[id(pt)] = _cond_nodes(ctx, g, pt)
+        return conds_cache[id(pt)]
+
+    def rewound(nm, pt) -> bool:
+        for c in fn_calls(fn):
+            if isinstance(c.func, ast.Attribute) and c.func.attr == "seek" and is_(c.func.value, nm):
+                off, wh = _seek_args(c)
+                if _const(ctx, g, off) == 0 and (wh is None or _const(ctx, g, wh) == 0) and cfg.has(fv.stmt_of(c)) and cfg.has(fv.stmt_of(pt)) \
+                        and cfg.dominates(cfg.node(fv.stmt_of(c)), cfg.node(fv.stmt_of(pt))):
+                    return True
+        return False
+
+    def follow(nm, at, path, d) -> List[Tuple[str, str]]:
+        path = path + [(nm, at)]
+        rd = reaching_defs(ctx, g, nm, at)
+        if not rd or d > 6:
+            return [("unknown", f"cannot follow where `{nm}` comes from")]
+        out = []
+        for st, v in rd:
+            v0 = strip_cast(v) if v is not None else None
+            if v0 is None:
+                out.append(("unknown", f"`{nm}` is bound by `{src(st)[:40]}`"))
+            elif isinstance(v0, ast.Constant) and v0.value is None:
+                # excluded by a None test, or by a successful find_mz_offset(<it>) validation (None cannot pass it)
+                if not any(nonnull(t, pol, n2) or validates(t, pol, n2) is True for n2, pt in path for t, pol in conds(pt)):
+                    out.append(("bad", "None can be returned instead of raising ValueError"))
+            elif isinstance(v0, ast.Name) and v0.id in params(fn):
+                out.append(("bad", f"the returned object is the argument `{v0.id}`, not a view built by cls(fh, nonce_offset=candidate)"))
+            elif isinstance(v0, ast.Name):
+                out += follow(_root(fn, v0) or v0.id, st, path, d + 1)
+            elif isinstance(v0, ast.Call) and ctx.rs.resolve_call(g, v0).kind == "class" and ctx.rs.resolve_call(g, v0).fq == CLS:
+                vals = [validates(t, pol, n2) for n2, pt in path for t, pol in conds(pt)]
+                val, odd = any(x is True for x in vals), any(x is False for x in vals)
+                rew_ok = any(rewound(n2, pt) for n2, pt in path)
+                out.append(("ok" if val and rew_ok else "bad",
+                            f"candidate returned only after find_mz_offset(<it>) is not None={val}" + (" (tested for truthiness/another value: offset 0 is rejected)" if odd and not val else "")
+                            + f"; rewound to logical 0={rew_ok}; built by cls(fh, nonce_offset=candidate)=True"))
+            elif isinstance(v0, ast.Call) and _helper_of(ctx, g, v0) is not None and depth < 2:
+                h = _helper_of(ctx, g, v0)
+                if not any(nonnull(t, pol, n2) for n2, pt in path for t, pol in conds(pt)):
+                    out.append(("bad", f"the result of {h.qualname} is returned without testing it for None"))
+                    continue
+                rets = [r2 for r2 in ctx.cfg(h).return_stmts() if r2.value is not None and not (isinstance(r2.value, ast.Constant) and r2.value.value is None)]
+                out += [_validated_return(ctx, h, r2, depth + 1) for r2 in rets] or [("bad", f"{h.qualname} never returns a view")]
+            else:
+                out.append(("unknown", f"the returned object is `{src(v0)[:60]}`"))
+        return out
+
+    res = follow(name0, r, [], 0)
+    if not res:
+        return "unknown", "no value reaches the return"
+    v = _worst(x for x, _d in res)
+    return v, "; ".join(dict.fromkeys(d for x, d in res if x == v))
+
+
+def _r4_scan_range(ctx):
+    """The size-relation scan probes every offset 0 .. maxrange-1."""
+    ino = ctx.repo.func("xordecode.iter_nonce_offsets")
+    fn = ino.node
+    ps = params(fn)
+    t = "scan covers offsets 0 .. maxrange-1"
+    yields = [n for n in body_walk(fn) if isinstance(n, ast.Yield) and n.value is not None]
+    fv = FuncView.of(fn)
+    loop = fv.enclosing(yields[0], (ast.For, ast.While)) if yields else None
+    name = dotted(yields[0].value) if yields else None
+    if isinstance(loop, ast.While) and name is not None and len(ps) > 2 and name not in ps:
+        # counter-driven scan: `i = c0` before the loop, one `i = i + 1` per iteration, `i < maxrange` holds where i is used
+        cfg = ctx.cfg(ino)
+        inside = {id(x) for x in ast.walk(loop)}
+        defs = assignments_to(fn, name)
+        init = [(st, v) for st, v in defs if id(st) not in inside]
+        upd = [st for st, v in defs if id(st) in inside]
+        I = SymPoly.atom(name)
+        ystmt = fv.stmt_of(yields[0])
+        if len(init) == 1 and len(upd) == 1 and _is_int(_const(ctx, ino, init[0][1])) and cfg.has(upd[0] if isinstance(upd[0], ast.stmt) else fv.stmt_of(upd[0])) and cfg.has(ystmt):
+            ust = upd[0] if isinstance(upd[0], ast.stmt) else fv.stmt_of(upd[0])
+            uval = ust.value if isinstance(ust, ast.Assign) else (upd[0].value if isinstance(upd[0], ast.NamedExpr) else None)
+            step = _poly(ctx, ino, uval, stop=frozenset({name})) - I if uval is not None and _poly(ctx, ino, uval, stop=frozenset({name})) is not None else None
+            if isinstance(ust, ast.AugAssign) and isinstance(ust.op, ast.Add):
+                step = _poly(ctx, ino, ust.value, stop=frozenset({name}))
+            before_use = cfg.dominates(cfg.node(ust), cfg.node(ystmt))
+            after_use = cfg.dominates(cfg.node(ystmt), cfg.node(ust)) or not cfg.reaches(cfg.node(ust), cfg.node(ystmt), avoiding=[cfg.node(loop)])
+            if step is not None and (before_use or after_use):
+                first = SymPoly.const(_const(ctx, ino, init[0][1])) + (step if before_use else SymPoly.const(0))
+                bound = any(p == I - SymPoly.atom(ps[2]) + SymPoly.const(1) for p in _linear_facts(ctx, ino, ystmt, lambda e: _poly(ctx, ino, e, stop=frozenset({name}))))
+                v = _worst([_verdict(first, SymPoly.const(0)), _verdict(step, SymPoly.const(1)), "ok" if bound else "unknown"])
+                _emit(ctx, "R4", "LOOP", ino, t, v, "every offset below maxrange is probed",
+                      f"the scan starts at {first}, advances by {step}, bounded by maxrange={bound}; required 0, 1, True", loop)
+                return
+    if not (isinstance(loop, ast.For) and len(ps) > 2 and isinstance(loop.target, ast.Name) and loop.target.id == name and isinstance(loop.iter, ast.Call)
+            and dotted(loop.iter.func) == "range" and 1 <= len(loop.iter.args) <= 3 and not loop.iter.keywords):
+        ctx.undecided("R4", "LOOP", ino, t, "the scan is not a `for <offset> in range(..)` loop yielding its variable")
+        return
+    a = loop.iter.args
+    start = SymPoly.const(0) if len(a) == 1 else _poly(ctx, ino, a[0])
+    stop = _poly(ctx, ino, a[0] if len(a) == 1 else a[1])
+    step = SymPoly.const(1) if len(a) < 3 else _poly(ctx, ino, a[2])
+    v = _worst([_verdict(start, SymPoly.const(0), vocab={ps[2]}), _verdict(stop, SymPoly.atom(ps[2])), _verdict(step, SymPoly.const(1), vocab={ps[2]})])
+    _emit(ctx, "R4", "LOOP", ino, t, v, "every offset below maxrange is probed", f"the scan probes range({start}, {stop}, {step}); required range(0, maxrange, 1)", loop)
 
 
 def r4(ctx):
-    f = ctx.repo.func("xordecode.XorEncodedFile.from_file")
+    f = ctx.repo.func(f"{CLS}.from_file")
+    fn = f.node
     cfg = ctx.cfg(f)
-    fv = FuncView.of(f.node)
-    fh, mr = params(f.node)[1], params(f.node)[2]
-    nn = [c for c in fn_calls(f.node) if ctx.rs.resolve_call(f, c).fq == "xordecode.iter_nonce_offsets"]
-    sc = [c for c in fn_calls(f.node) if ctx.rs.resolve_call(f, c).fq == "utils.iter_find_needle"]
-    ok = len(nn) == 1 and dotted(nn[0].args[0]) == fh and dotted(kwarg(nn[0], "maxrange")) == mr
-    ctx.ob("R4", "AGREE", f, "iter_nonce_offsets(fh, maxrange=maxrange)", ok, "size-relation candidates over the search range")
-    ok = len(sc) == 1 and dotted(sc[0].args[0]) == fh and dotted(sc[0].args[1]).endswith("EOF_SHELLCODE_MARKER") and is_const(kwarg(sc[0], "start_offset"), 0) and dotted(kwarg(sc[0], "max_offset")) == mr
-    ctx.ob("R4", "AGREE", f, "iter_find_needle(fh, marker, 0, maxrange)", bool(ok), "marker candidates from the start of the file within the search range")
-    comp = fv.enclosing(sc[0], (ast.ListComp, ast.GeneratorExp)) if sc else None
-    ok = comp is not None and sympoly(comp.elt) == SymPoly.atom(dotted(comp.generators[0].target)) + SymPoly.atom("len(cls.EOF_SHELLCODE_MARKER)")
-    ctx.ob("R4", "AGREE", f, "marker offset + len(marker)", bool(ok), "the encoded region starts right after the end-of-stub marker" if ok else "marker candidates are not offset + len(marker)")
-    marker = ctx.repo.class_attrs("xordecode.XorEncodedFile").get("EOF_SHELLCODE_MARKER")
-    ctx.ob("R4", "TABLE", "xordecode.py::XorEncodedFile", "EOF_SHELLCODE_MARKER", _c(marker) == b"\xff\xff\xff", f"marker is {_c(marker)!r} (ff ff ff)")
-    rets = cfg.return_stmts()
-    for r in rets:
-        name = dotted(r.value)
-        conds = [t for t, pol, n in dominating_conditions(ctx, f, r) if pol]
-        val = any(t.startswith("pe.find_mz_offset(") and t.endswith("is not None") and name in t for t in conds)
-        rew = [c for c in fn_calls(f.node) if dotted(c.func) == f"{name}.seek" and _c(c.args[0]) == 0 and len(c.args) == 1]
-        rew_ok = bool(rew) and cfg.dominates(cfg.node(fv.stmt_of(rew[0])), cfg.node(r))
-        built = [v for st, v in assignments_to(f.node, name) if isinstance(v, ast.Call) and dotted(v.func) == "cls"]
-        ctx.ob("R4", "DOM", f, "return " + src(r.value), val and rew_ok and bool(built),
-               f"candidate returned only after find_mz_offset(<it>) is not None={val}; rewound to logical 0={rew_ok}; built by cls(fh, nonce_offset=candidate)={bool(built)}", r)
+    fv = FuncView.of(fn)
+    ps = params(fn)
+    fh, mr = (ps[1], ps[2]) if len(ps) > 2 else (None, None)
+    scope = [f] + _helpers(ctx, f)  # from_file and the helpers of this module it delegates to
+    nn = [(g, c) for g in scope for c in fn_calls(g.node) if _resolves_to(ctx, g, c, "xordecode.iter_nonce_offsets")]
+    sc = [(g, c) for g in scope for c in fn_calls(g.node) if _resolves_to(ctx, g, c, "utils.iter_find_needle")]
+
+    def role(g, e) -> Optional[str]:
+        """the from_file-level name an expression of (helper) g is a copy of: helper parameters are mapped through the
+        helper's single call site"""
+        nm = _root(g.node, e) if e is not None else None
+        if g.fq == f.fq or nm is None or nm not in params(g.node):
+            return nm
+        sites = [(h, c) for h in scope for c in fn_calls(h.node) if (_helper_of(ctx, h, c) is not None and _helper_of(ctx, h, c).fq == g.fq)]
+        if len(sites) != 1:
+            return None
+        h, c = sites[0]
+        skip = bool(params(g.node)) and params(g.node)[0] in ("self", "cls") and isinstance(c.func, ast.Attribute)
+        a = bind_args(c, g.node, skip_self=skip).get(nm)
+        return role(h, a) if a is not None else None
+
+    def same(g, e, name):
+        return e is not None and name is not None and role(g, e) == name
+
+    # ---- candidate sources
+    t = "iter_nonce_offsets(fh, maxrange=maxrange)"
+    if len(nn) != 1 or fh is None:
+        ctx.undecided("R4", "AGREE", f, t, f"{len(nn)} calls of iter_nonce_offsets: the size-relation candidate source cannot be located")
+    else:
+        g, c = nn[0]
+        b = bind_args(c, ctx.repo.func("xordecode.iter_nonce_offsets").node)
+        rs_ = b.get("real_size")
+        ok = same(g, b.get("fh"), fh) and same(g, b.get("maxrange"), mr) and (rs_ is None or (isinstance(strip_cast(rs_), ast.Constant) and strip_cast(rs_).value is None))
+        ctx.ob("R4", "AGREE", f, t, bool(ok), "size-relation candidates over the search range" if ok else
+               f"size-relation candidates are searched with {({k: src(v) for k, v in b.items()})}: not (fh, real size of fh, maxrange)", c)
+    t = "iter_find_needle(fh, marker, 0, maxrange)"
+    if len(sc) != 1 or fh is None:
+        ctx.undecided("R4", "AGREE", f, t, f"{len(sc)} calls of iter_find_needle: the marker candidate source cannot be located")
+        ctx.undecided("R4", "AGREE", f, "marker offset + len(marker)", "the marker candidate source cannot be located")
+    else:
+        g, c = sc[0]
+        gv = FuncView.of(g.node)
+        b = bind_args(c, ctx.repo.func("utils.iter_find_needle").node)
+        pnames = params(ctx.repo.func("utils.iter_find_needle").node)
+        args = [b.get(p) for p in pnames[:4]] + [None] * 4
+        marker = _const(ctx, f, _class_attr(ctx, f, "EOF_SHELLCODE_MARKER"))
+        needle_ok = args[1] is not None and (dotted(origin(g.node, args[1])) or "").endswith(".EOF_SHELLCODE_MARKER")
+        ok = same(g, args[0], fh) and needle_ok and _const(ctx, g, args[2]) == 0 and _is_int(_const(ctx, g, args[2])) and same(g, args[3], mr)
+        ctx.ob("R4", "AGREE", f, t, bool(ok), "marker candidates from the start of the file within the search range" if ok else
+               f"marker candidates are searched with {[src(a) for a in args[:4]]}: not (fh, EOF_SHELLCODE_MARKER, 0, maxrange)", c)
+        # the element built from each hit
+        t = "marker offset + len(marker)"
+        elt = tgt = None
+        comp = gv.enclosing(c, (ast.ListComp, ast.GeneratorExp, ast.SetComp))
+        loop = gv.enclosing(c, (ast.For,))
+        if comp is not None and len(comp.generators) == 1 and not comp.generators[0].ifs and isinstance(comp.generators[0].target, ast.Name):
+            elt, tgt = comp.elt, comp.generators[0].target.id
+        elif comp is None and loop is not None and isinstance(loop.target, ast.Name) and any(c is x for x in ast.walk(loop.iter)):
+            apps = [x for x in ast.walk(loop) if isinstance(x, ast.Call) and isinstance(x.func, ast.Attribute) and x.func.attr in ("append", "add") and len(x.args) == 1]
+            if len(apps) == 1:
+                elt, tgt = apps[0].args[0], loop.target.id
+        par = gv.parent.get(id(c))
+        direct = elt is None and comp is None and not (loop is not None and any(c is x for x in ast.walk(loop.iter))) \
+            and ((isinstance(par, ast.Call) and isinstance(par.func, ast.Attribute) and par.func.attr in ("extend", "update") and any(c is a for a in par.args))
+                 or (isinstance(par, ast.AugAssign) and par.value is c) or (isinstance(par, ast.BinOp) and isinstance(par.op, ast.Add)))
+        if direct and isinstance(marker, bytes):
+            ctx.ob("R4", "AGREE", f, t, False, f"the marker hits are used as candidates unchanged (`{src(par)[:70]}`); required offset + len(marker) = offset + {len(marker)}", c)
+        elif elt is None or not isinstance(marker, bytes):
+            ctx.undecided("R4", "AGREE", f, t, "cannot locate the candidate built from each marker hit")
+        else:
+            p = _poly(ctx, g, elt, stop=frozenset({tgt}))
+            _emit(ctx, "R4", "AGREE", f, t, _verdict(p, SymPoly.atom(tgt) + SymPoly.const(len(marker))),
+                  "the encoded region starts right after the end-of-stub marker", f"marker candidates are {p}; required offset + len(marker) = offset + {len(marker)}")
+    marker = _class_attr(ctx, f, "EOF_SHELLCODE_MARKER")
+    ctx.ob("R4", "TABLE", "xordecode.py::XorEncodedFile", "EOF_SHELLCODE_MARKER", _const(ctx, f, marker) == b"\xff\xff\xff", f"marker is {_const(ctx, f, marker)!r} (ff ff ff)")
+    # ---- returns: validated, rewound, freshly built
+    for r in cfg.return_stmts():
+        if r.value is None or (isinstance(r.value, ast.Constant) and r.value.value is None):
+            ctx.ob("R4", "DOM", f, "return None", False, "from_file returns None instead of a validated view / raising ValueError", r)
+            continue
+        v, detail = _validated_return(ctx, f, r)
+        _emit(ctx, "R4", "DOM", f, "return " + src(r.value), v, detail, detail, r)
     # the search range bounds where the *encoded region* may start in the raw file; the PE check on the decoded stream
     # is a different coordinate space and keeps find_mz_offset's own default range (a narrower one rejects valid stages)
-    for c in [c for c in fn_calls(f.node) if ctx.rs.resolve_call(f, c).fq == "pe.find_mz_offset"]:
+    callee = ctx.repo.func("pe.find_mz_offset").node
+    dfl = param_defaults(callee)
+    mz_calls = []
+    for g in [f] + _helpers(ctx, f):
+        mz_calls += [(g, c) for c in fn_calls(g.node) if _resolves_to(ctx, g, c, "pe.find_mz_offset") and not any(c is x for _g, x in mz_calls)]
+    for g, c in mz_calls:
+        b = bind_args(c, callee)
         extra = sorted({n.id for a in list(c.args[1:]) + [k.value for k in c.keywords] for n in ast.walk(a) if isinstance(n, ast.Name)})
-        from csverif.astutil import bind_args, param_defaults
-        callee = ctx.repo.func("pe.find_mz_offset").node
-        b, dfl = bind_args(c, callee), param_defaults(callee)
-        narrowed = [p for p in params(callee)[1:] if _c(b.get(p)) is None or (p == "maxrange" and _c(b.get(p)) < _c(dfl.get(p))) or (p != "maxrange" and _c(b.get(p)) != _c(dfl.get(p)))]
-        ctx.ob("R4", "AGREE", f, "find_mz_offset(<candidate>) with its default range", not narrowed,
-               "the candidate is validated over find_mz_offset's default range" if not narrowed else f"validation range overridden ({narrowed} from {extra}): a valid stage whose PE header lies beyond it is rejected", c)
-    last = [r for r in cfg.raise_stmts() if raise_class(r) == "ValueError" and fv.enclosing(r, (ast.For, ast.While, ast.If, ast.Try)) is None]
-    ctx.ob("R4", "EXIT", f, "fall-through raises ValueError", bool(last) and not cfg.falls_off_end(), "inputs without a valid candidate are rejected with ValueError")
-    loops = [s for s in statements(f.node) if isinstance(s, ast.For) and "most_common" in src(s.iter)]
-    ok = False
-    if len(loops) == 1:
-        adds = [n for n in ast.walk(loops[0].iter) if isinstance(n, ast.BinOp) and isinstance(n.op, ast.Add)]
-        if adds:
-            from csverif.q import reaching_origins
-            from csverif.q import inline as _inl
-            srcs = []
-            for side in (adds[0].left, adds[0].right):
-                for o in reaching_origins(ctx, f, side, loops[0]):
-                    srcs.append(src(_inl(f.node, o)) if isinstance(o, ast.expr) else src(o))
-            ok = any("iter_nonce_offsets" in x for x in srcs) and any("iter_find_needle" in x for x in srcs)
-    ctx.ob("R4", "AGREE", f, "candidates = marker + size-relation offsets", ok, "both candidate sources are tried" if ok else "candidate loop does not range over both sources")
+        narrowed, unknown = [], []
+        for p in params(callee)[1:]:
+            have, d = _const(ctx, g, b.get(p)), _c(dfl.get(p))
+            if b.get(p) is dfl.get(p):
+                continue
+            if have is None:
+                (narrowed if any(isinstance(n, ast.Name) and n.id in params(g.node) for n in ast.walk(origin(g.node, b.get(p)) if b.get(p) is not None else ast.Pass())) else unknown).append(p)
+            elif (p == "maxrange" and _is_int(have) and _is_int(d) and have < d) or (p != "maxrange" and have != d):
+                narrowed.append(p)
+        v = "bad" if narrowed else ("unknown" if unknown else "ok")
+        _emit(ctx, "R4", "AGREE", f, "find_mz_offset(<candidate>) with its default range", v, "the candidate is validated over find_mz_offset's default range",
+              f"validation range overridden ({narrowed or unknown} from {extra}): a valid stage whose PE header lies beyond it is rejected", c)
+    # ---- exhaustion
+    raises = cfg.raise_stmts()
+    reach = [r for r in raises if cfg.reachable(cfg.node(r))]
+    ve = [r for r in reach if raise_class(r) == "ValueError"]
+    other = [r for r in reach if raise_class(r) != "ValueError" and r.exc is not None]
+    ctx.ob("R4", "EXIT", f, "fall-through raises ValueError", bool(ve) and not other and not cfg.falls_off_end(),
+           "inputs without a valid candidate are rejected with ValueError" if ve and not other and not cfg.falls_off_end() else
+           f"ValueError raised={bool(ve)}; other exceptions raised={[raise_class(r) for r in other]}; can fall off the end (returns None)={cfg.falls_off_end()}")
+    _r4_scan_range(ctx)
+    # ---- the candidate loop: both sources, most common first
+    t = "candidates = marker + size-relation offsets"
+    builds = [c for c in fn_calls(fn) if _constructs(ctx, f, c)]
+    loops = []
+    for c in builds:
+        lp = fv.enclosing(c, (ast.For,))
+        if lp is not None and not any(lp is x for x in loops):
+            loops.append(lp)
+    if len(loops) != 1 or not cfg.has(loops[0]):
+        ctx.undecided("R4", "AGREE", f, t, "cannot locate the loop that tries the candidates (the loop that constructs the XorEncodedFile views)")
+        ctx.undecided("R4", "LOOP", f, "a rejected candidate does not end the search", "cannot locate the loop that tries the candidates")
+        return
+    lp = loops[0]
+    # ---- a candidate that fails the MZ validation must not end the search: from the statement that validates a candidate,
+    # on the CFG specialised to "the validation failed", every way on (other than returning a view, which the DOM
+    # obligations cover) leads to the next candidate
+    from csverif.cfg import RAISE
+
+    anchors = []
+    for c in [x for x in ast.walk(lp) if isinstance(x, ast.Call)]:
+        st = fv.stmt_of(c)
+        if st is None or not cfg.has(st):
+            continue
+        target = st.targets[0].id if isinstance(st, ast.Assign) and len(st.targets) == 1 and isinstance(st.targets[0], ast.Name) else None
+        keys: Dict[str, bool] = {}
+        if _resolves_to(ctx, f, c, "pe.find_mz_offset"):
+            par = fv.parent.get(id(c))
+            if isinstance(par, ast.Compare) and par.left is c and len(par.ops) == 1 and isinstance(par.comparators[0], ast.Constant) and par.comparators[0].value is None \
+                    and isinstance(par.ops[0], (ast.Is, ast.IsNot, ast.Eq, ast.NotEq)):
+                txt = src(c)
+                keys.update({f"{txt} is None": True, f"{txt} is not None": False, f"{txt} == None": True, f"{txt} != None": False})
+                if target is not None and st.value is par:
+                    keys[target] = isinstance(par.ops[0], (ast.Is, ast.Eq))  # the flag's value when the validation failed
+            elif target is not None and strip_cast(st.value) is c:
+                keys.update({f"{target} is None": True, f"{target} is not None": False, f"{target} == None": True, f"{target} != None": False})
+        elif _helper_of(ctx, f, c) is not None and _constructs(ctx, f, c) and target is not None and st.value is c:
+            # a helper that returns a validated view or None
+            keys.update({f"{target} is None": True, f"{target} is not None": False, f"{target} == None": True, f"{target} != None": False, target: False})
+        if keys:
+            anchors.append((st, keys))
+    tl = "a rejected candidate does not end the search"
+    if not anchors:
+        ctx.undecided("R4", "LOOP", f, tl, "no `find_mz_offset(..) is None` validation located inside the candidate loop")
+    else:
+        header = cfg.node(lp)
+        rets = [cfg.node(r) for r in cfg.return_stmts()]
+        ends = []
+        for st, keys in anchors:
+            spec = specialise(cfg, keys)
+            if spec.reaches(cfg.node(st), RAISE, avoiding=[header] + rets) or spec.reaches(cfg.node(st), EXIT, avoiding=[header] + rets):
+                ends.append(st)
+        ctx.ob("R4", "LOOP", f, tl, not ends, "after a candidate without a valid MZ header the next candidate is tried" if not ends else
+               "a candidate that fails the MZ validation ends the search (break/raise): a valid candidate ranked behind it is never tried and the stage is rejected", ends[0] if ends else lp)
+    known = ("xordecode.iter_nonce_offsets", "utils.iter_find_needle", "pe.find_mz_offset")
+    grown = [c for c in fn_calls(fn) if isinstance(c.func, ast.Attribute) and c.func.attr in ("append", "extend", "update", "add") and isinstance(c.func.value, ast.Name)]
+    stores = [st for st in statements(fn) if isinstance(st, (ast.Assign, ast.AugAssign))
+              and any(isinstance(tg, ast.Subscript) and isinstance(tg.value, ast.Name) for tg in (st.targets if isinstance(st, ast.Assign) else [st.target]))]
+
+    def provenance(e0, at0) -> List[Tuple[object, ast.Call]]:
+        """(function, call) pairs the value of expression e0 (evaluated at at0) is computed from: reaching definitions,
+        in-place growth of the collections involved (append/extend/update, item stores) and helpers of this module"""
+        seen_calls: List[Tuple[object, ast.Call]] = []
+        seen_names: set = set()
+
+        def see(g, c, depth=0):
+            seen_calls.append((g, c))
+            # a package helper the normaliser could not inline: its calls contribute too
+            cal = ctx.rs.resolve_call(g, c)
+            if cal.kind == "func" and cal.func is not None and cal.func.fq not in known and cal.func.module.name == "xordecode" and depth < 3 and cal.func.fq != f.fq:
+                for c2 in fn_calls(cal.func.node):
+                    if not any(c2 is x for _g, x in seen_calls):
+                        see(cal.func, c2, depth + 1)
+
+        def flow(e, at, depth=0):
+            if depth > 8 or e is None:
+                return
+            for x in ast.walk(e):
+                if isinstance(x, ast.Call):
+                    if not any(x is y for _g, y in seen_calls):
+                        see(f, x)
+                elif isinstance(x, ast.Name) and isinstance(x.ctx, ast.Load) and x.id not in ps:
+                    seen_names.add(x.id)
+                    for s_, v in reaching_defs(ctx, f, x.id, at):
+                        if v is not None:
+                            flow(v, s_, depth + 1)
+                        elif isinstance(s_, ast.AugAssign):
+                            flow(s_.value, s_, depth + 1)
+                        elif isinstance(s_, ast.For):
+                            flow(s_.iter, s_, depth + 1)
+
+        flow(e0, at0)
+        done = set()
+        for _ in range(3):
+            for c in grown:
+                if any(c is x for _g, x in seen_calls) or c.func.value.id not in seen_names:
+                    continue
+                see(f, c)
+                for a in c.args:
+                    flow(a, c)
+            for st in stores:  # tally[key] = ..
+                for tg in (st.targets if isinstance(st, ast.Assign) else [st.target]):
+                    if isinstance(tg, ast.Subscript) and isinstance(tg.value, ast.Name) and tg.value.id in seen_names and id(st) not in done:
+                        done.add(id(st))
+                        flow(tg.slice, st)
+                        flow(st.value, st)
+        return seen_calls
+
+    def sources(calls):
+        return (any(_resolves_to(ctx, g, c, "xordecode.iter_nonce_offsets") for g, c in calls), any(_resolves_to(ctx, g, c, "utils.iter_find_needle") for g, c in calls))
+
+    seen_calls = provenance(lp.iter, lp)
+    has_nn, has_sc = sources(seen_calls)
+    ranked = any(isinstance(c.func, ast.Attribute) and c.func.attr == "most_common" for _g, c in seen_calls)
+    counted = any((dotted(c.func) or "").split(".")[-1] == "Counter" for _g, c in seen_calls)
+    # duplicates are the votes: removing them after the two sources were merged makes every count 1
+    for g, c in seen_calls:
+        if g is f and (dotted(c.func) or "") in ("set", "frozenset", "dict.fromkeys") and c.args and cfg.has(fv.stmt_of(c)) and all(sources(provenance(c.args[0], fv.stmt_of(c)))) \
+                and has_nn and has_sc and ranked and counted:
+            ctx.ob("R4", "AGREE", f, t, False, f"the merged candidates are de-duplicated (`{src(c)[:60]}`) before they are counted: every count is 1 and the offset confirmed by "
+                   "both marker and size field is no longer tried first", c)
+            return
+    if has_nn and has_sc and ranked and counted:
+        ctx.ob("R4", "AGREE", f, t, True, "both candidate sources are tried, the most common candidate first", lp)
+    elif not (has_nn and has_sc):
+        ctx.ob("R4", "AGREE", f, t, False, f"candidate loop does not range over both sources (size relation={has_nn}, end-of-stub marker={has_sc})", lp)
+    elif not counted and not ranked and not any((dotted(c.func) or "").split(".")[-1] in ("sorted", "sort", "nlargest", "max") for _g, c in seen_calls):
+        ctx.ob("R4", "AGREE", f, t, False, "candidates are not ranked by how many methods found them (no Counter(..).most_common()): an offset confirmed by both marker and size field is not tried first", lp)
+    else:
+        ctx.undecided("R4", "AGREE", f, t, "candidates are counted but not iterated with most_common(): the ranking cannot be followed", lp)
